@@ -182,7 +182,7 @@ Section Prims.
   | PClock s tr dt : 0 <= dt -> prim (None, s, tr) (None, set_clock s (clock s + dt), tr)
   | PSetNext s tr v :
       0 <= v <= M -> pending s = [] -> prim (None, s, tr) (None, set_next s v, tr)
-  | PFocus s tr j : 0 <= j -> prim (None, s, tr) (None, focus s j, tr)
+  | PFocus s tr j : 0 <= j <= cur s -> prim (None, s, tr) (None, focus s j, tr)
   | PCrash s tr : prim (None, s, tr) (None, set_cur s (cur s + 1), tr ++ [ECrash]).
 
   Inductive istar : cfg -> cfg -> Prop :=
@@ -407,18 +407,16 @@ Section Prims.
     - apply star_one. apply PMark. right. reflexivity.
   Qed.
 
-  Lemma tick_all_star js : forall s tr h,
-    Forall (fun j => 0 <= j) js ->
-    star (None, s, tr) (None, fst (tick_all M s js h), tr ++ snd (tick_all M s js h)).
+  Lemma incs_range s j : 0 <= cur s -> In j (incs s) -> 0 <= j <= cur s.
   Proof.
-    induction js as [|j r IH]; intros s tr h F; cbn [tick_all fst snd].
-    - rewrite app_nil_r. constructor.
-    - inv F. eapply star_step; [apply (PFocus s tr j); assumption|].
-      rewrite app_assoc. eapply star_trans; [apply tick_star | apply IH; assumption].
+    intros C I. unfold incs in I. apply in_map_iff in I. destruct I as (n & <- & I).
+    apply in_seq in I. lia.
   Qed.
 
-  Lemma incs_nonneg s : Forall (fun j => 0 <= j) (incs s).
-  Proof. unfold incs. apply Forall_forall. intros j I. apply in_map_iff in I. destruct I as (n & <- & _). lia. Qed.
+  Lemma incs_all s j : 0 <= j <= cur s -> In j (incs s).
+  Proof.
+    intro H. unfold incs. apply in_map_iff. exists (Z.to_nat j). split; [lia|]. apply in_seq. lia.
+  Qed.
 
   (* what a primitive does to the incarnation counter *)
   Lemma prim_cur c c' : prim c c' -> 0 <= cur (cs c) -> 0 <= cur (cs c').
@@ -435,7 +433,7 @@ Section Prims.
   Lemma star_cur c c' : star c c' -> 0 <= cur (cs c) -> 0 <= cur (cs c').
   Proof. induction 1 as [c|a b c Hab _ IH]; intro H; [exact H | apply IH; eapply prim_cur; eassumption]. Qed.
 
-  Lemma tick_all_cur js : forall s h, cur (fst (tick_all M s js h)) = cur s.
+  Lemma tick_cur s h : cur (fst (tick M s h)) = cur s.
   Proof.
     assert (IS : forall c c', istar c c' -> cur (cs c') = cur (cs c)).
     { induction 1 as [c|c1 c2 c3 H1 _ IH2]; [reflexivity|]. rewrite IH2.
@@ -444,10 +442,26 @@ Section Prims.
     { induction ids as [|i r IH]; intro s0; cbn [fire_all fst]; [reflexivity|]. rewrite IH.
       unfold fire. destruct (aget i (pending s0)) as [e|]; cbn [fst set_pending cur]; [|reflexivity].
       apply (IS _ _ (exec_prog_istar (e_prog e) None s0 [])). }
+    unfold tick. destruct (armed s); [|reflexivity]. cbn [fst].
+    unfold check_expired. destruct (isnil (block M (foc s) (pending s))); [reflexivity | apply FA].
+  Qed.
+
+  Lemma tick_all_cur js : forall s h, cur (fst (tick_all M s js h)) = cur s.
+  Proof.
     induction js as [|j r IH]; intros s h; cbn [tick_all fst]; [reflexivity|].
-    rewrite IH. destruct (focus_frame s j) as (_ & _ & _ & C & _). rewrite <- C.
-    generalize (focus s j). intro s0. unfold tick. destruct (armed s0); [|reflexivity]. cbn [fst].
-    unfold check_expired. destruct (isnil (block M (foc s0) (pending s0))); [reflexivity | apply FA].
+    rewrite IH, tick_cur. apply (focus_frame s j).
+  Qed.
+
+  Lemma tick_all_star js : forall s tr h,
+    (forall j, In j js -> 0 <= j <= cur s) ->
+    star (None, s, tr) (None, fst (tick_all M s js h), tr ++ snd (tick_all M s js h)).
+  Proof.
+    induction js as [|j r IH]; intros s tr h F; cbn [tick_all fst snd].
+    - rewrite app_nil_r. constructor.
+    - eapply star_step; [apply (PFocus s tr j); apply F; left; reflexivity|].
+      rewrite app_assoc. eapply star_trans; [apply tick_star | apply IH].
+      intros j' I. rewrite tick_cur. destruct (focus_frame s j) as (_ & _ & _ & C & _). rewrite C.
+      apply F. right. exact I.
   Qed.
 
   Lemma tick_op_star s tr h :
@@ -455,7 +469,8 @@ Section Prims.
     star (None, s, tr) (None, fst (tick_op M s h), tr ++ snd (tick_op M s h)).
   Proof.
     intro C. unfold tick_op. cbn [fst snd].
-    eapply star_trans; [apply tick_all_star, incs_nonneg|]. apply star_one. apply PFocus. exact C.
+    eapply star_trans; [apply tick_all_star; intros j I; apply incs_range; [exact C | exact I]|].
+    apply star_one. apply PFocus. rewrite tick_all_cur. lia.
   Qed.
 
   Lemma tick_op_cur s h : cur (fst (tick_op M s h)) = cur s.
@@ -468,7 +483,7 @@ Section Prims.
     0 <= cur s ->
     star (None, s, tr) (None, fst (step M s o), tr ++ snd (step M s o)).
   Proof.
-    intro HC. destruct o as [a|id k| |id|h|h|dt|v|v|u|]; cbn [step fst snd].
+    intro HC. destruct o as [a|id k| |id|h|h|dt|v|v|u|]; cbn [step tick_real fst snd].
     - eapply star_step; [apply PMark; left; reflexivity|].
       change (tr ++ EDo :: snd (exec M a s)) with (tr ++ [EDo] ++ snd (exec M a s)).
       rewrite app_assoc. apply istar_star. apply exec_is_chain.
@@ -486,11 +501,8 @@ Section Prims.
       apply PSetNext; [lia|]. destruct (pending s); [reflexivity | discriminate].
     - apply star_one. apply PMark. right. reflexivity.
     - apply star_one. apply PMark. right. reflexivity.
-    - unfold crash. cbn [fst snd]. eapply star_step; [apply (PFocus s tr (cur s + 1)); lia|].
-      replace (set_cur (focus s (cur s + 1)) (cur s + 1))
-        with (set_cur (focus s (cur s + 1)) (cur (focus s (cur s + 1)) + 1)).
-      + apply star_one. apply PCrash.
-      + f_equal. unfold focus. destruct (aget (cur s + 1) (park s)) as [[[n a] c]|]; reflexivity.
+    - unfold crash. cbn [fst snd]. eapply star_step; [apply (PCrash s tr)|].
+      apply star_one. apply PFocus. cbn [set_cur cur]. lia.
   Qed.
 
   Lemma run_star ops : forall s tr,
@@ -976,10 +988,13 @@ Proof. destruct w; simpl. rewrite !Z.eqb_refl, ty_eqb_refl, body_eqb_refl. refle
 Lemma pmsg_eqb_refl m : pmsg_eqb m m = true.
 Proof. destruct m; simpl; rewrite ?Z.eqb_refl; reflexivity. Qed.
 
-Lemma kind_eqb_refl k : kind_eqb k k = true.
+Lemma ans_eqb_refl a : ans_eqb a a = true.
 Proof.
-  destruct k; simpl; [rewrite !Z.eqb_refl, pmsg_eqb_refl; reflexivity | apply wire_eqb_refl].
+  destruct a; simpl; [rewrite !Z.eqb_refl, pmsg_eqb_refl; reflexivity | apply wire_eqb_refl].
 Qed.
+
+Lemma kind_eqb_refl k : kind_eqb k k = true.
+Proof. unfold kind_eqb. apply ans_eqb_refl. Qed.
 
 (* ---- the decoding, case by case *)
 
@@ -1039,7 +1054,7 @@ Qed.
    (a typed nil pointer arrives as the zero message), nil for nil, and for an error code the
    error text alone whatever message came with it *)
 Lemma roundtrip code info m :
-  cls_of (KAns code info m) =
+  cls_of_ans (KAns code info m) =
   if code =? 0
   then match m with
        | MNil => RNil
@@ -1049,7 +1064,7 @@ Lemma roundtrip code info m :
        end
   else RErr info.
 Proof.
-  unfold cls_of, wire_of, encode. destruct (code =? 0) eqn:C.
+  unfold cls_of_ans, wire_of_ans, encode. destruct (code =? 0) eqn:C.
   - destruct m; reflexivity.
   - simpl. rewrite C. reflexivity.
 Qed.
@@ -1299,8 +1314,8 @@ Section Sim.
   Definition base (c : cfg) : Prop :=
     sorted (pending (cs c)) /\
     (forall j, 0 <= next_of (cs c) j <= M) /\
-    (forall j, has_block M j (pending (cs c)) -> armed_of (cs c) j = true) /\
-    0 <= foc (cs c) /\ 0 <= cur (cs c).
+    (forall j, has_block M j (pending (cs c)) -> armed_of (cs c) j = true /\ 0 <= j <= cur (cs c)) /\
+    0 <= foc (cs c) <= cur (cs c).
 
   Definition Sim (c : cfg) : Prop := base c /\ (noclash (ct c) -> exists a, Rel c a).
 
@@ -1330,12 +1345,12 @@ Section Sim.
     (has_block M (foc s) (pending s') -> armed s' = true) ->
     forall f tr f' tr', base (f, s, tr) -> base (f', s', tr').
   Proof.
-    intros S' F R C N HB HA f tr f' tr' (S & Rg & A & Fo & Cu). unfold base, cs in *; cbn [fst snd] in *.
-    split; [exact S'|]. split; [|split; [|split; [rewrite F; exact Fo | rewrite C; exact Cu]]].
+    intros S' F R C N HB HA f tr f' tr' (S & Rg & A & Fo). unfold base, cs in *; cbn [fst snd] in *.
+    split; [exact S'|]. split; [|split; [|rewrite F, C; exact Fo]].
     - intro j. unfold next_of. rewrite (views_upd s s' F R j).
       destruct (Z.eqb_spec j (foc s)); [exact N | apply Rg].
-    - intros j H. unfold armed_of. rewrite (views_upd s s' F R j).
-      destruct (Z.eqb_spec j (foc s)) as [->|Ne]; [apply HA; exact H | apply A; apply HB; assumption].
+    - intros j H. unfold armed_of. rewrite (views_upd s s' F R j), C.
+      destruct (Z.eqb_spec j (foc s)) as [->|Ne]; [split; [apply HA; exact H | exact Fo] | apply A; apply HB; assumption].
   Qed.
 
   Lemma base_prim c c' : prim M c c' -> base c -> base c'.
@@ -1345,7 +1360,7 @@ Section Sim.
                    |s tr id|s tr dt Hd|s tr v Hv Pe|s tr j Hj|s tr];
       try exact B.
     - destruct P as [f s tr u p|f s tr|f s tr].
-      + pose proof B as (S & Rg & A & Fo & Cu). unfold cs in *; cbn [fst snd] in *.
+      + pose proof B as (S & Rg & A & Fo). unfold cs in *; cbn [fst snd] in *.
         pose proof (Rg (foc s)) as R0. rewrite next_of_foc in R0. pose proof (alloc_range _ R0) as Hid.
         eapply base_upd; [| | | | | | |exact B]; unfold register; cbn [fst snd pending foc rest cur next armed];
           try reflexivity.
@@ -1360,39 +1375,40 @@ Section Sim.
         * apply B.
         * destruct B as (_ & Rg & _). specialize (Rg (foc s)). rewrite next_of_foc in Rg. exact Rg.
         * auto.
-        * destruct B as (_ & _ & A & _). intro H. specialize (A _ H). rewrite armed_of_foc in A. exact A.
+        * destruct B as (_ & _ & A & _). intro H. destruct (A _ H) as [A1 _]. rewrite armed_of_foc in A1. exact A1.
     - (* tick off *)
-      pose proof B as (S & Rg & A & Fo & Cu). unfold cs in *; cbn [fst snd] in *.
+      pose proof B as (S & Rg & A & Fo). unfold cs in *; cbn [fst snd] in *.
       eapply base_upd; [| | | | | | |exact B]; cbn [set_armed pending foc rest cur next armed]; try reflexivity.
       + exact S.
       + specialize (Rg (foc s)). rewrite next_of_foc in Rg. exact Rg.
       + auto.
       + intro H. exfalso. apply (proj1 (block_nil_iff M (foc s) (pending s) S) Pe). exact H.
     - (* end of a callback *)
-      pose proof B as (S & Rg & A & Fo & Cu). unfold cs in *; cbn [fst snd] in *.
+      pose proof B as (S & Rg & A & Fo). unfold cs in *; cbn [fst snd] in *.
       eapply base_upd; [| | | | | | |exact B]; cbn [set_pending pending foc rest cur next armed]; try reflexivity.
       + apply sorted_adel; exact S.
       + specialize (Rg (foc s)). rewrite next_of_foc in Rg. exact Rg.
       + intros j (k & e & G & I) _. destruct (Z.eq_dec k id) as [->|Nk]; [rewrite aget_adel_same in G; discriminate|].
         rewrite aget_adel_other in G by exact Nk. exists k, e. auto.
       + intros (k & e & G & I). destruct (Z.eq_dec k id) as [->|Nk]; [rewrite aget_adel_same in G; discriminate|].
-        rewrite aget_adel_other in G by exact Nk. rewrite <- armed_of_foc. apply A. exists k, e. auto.
+        rewrite aget_adel_other in G by exact Nk. rewrite <- armed_of_foc. apply (A (foc s)). exists k, e. auto.
     - (* set next *)
-      pose proof B as (S & Rg & A & Fo & Cu). unfold cs in *; cbn [fst snd] in *.
+      pose proof B as (S & Rg & A & Fo). unfold cs in *; cbn [fst snd] in *.
       eapply base_upd; [| | | | | | |exact B]; cbn [set_next pending foc rest cur next armed]; try reflexivity.
       + exact S.
       + lia.
       + auto.
       + rewrite Pe. intros (k & e & G & _). discriminate.
     - (* focus *)
-      destruct B as (S & Rg & A & Fo & Cu). unfold base, cs in *; cbn [fst snd] in *.
+      destruct B as (S & Rg & A & Fo). unfold base, cs in *; cbn [fst snd] in *.
       destruct (focus_frame s j) as (P & _ & _ & C & F). rewrite P, C, F.
-      split; [exact S|]. split; [|split; [|split; assumption]].
+      split; [exact S|]. split; [|split; [|exact Hj]].
       + intro j'. unfold next_of. rewrite view_focus. apply Rg.
       + intros j' H. unfold armed_of. rewrite view_focus. apply A. exact H.
     - (* restart *)
-      destruct B as (S & Rg & A & Fo & Cu). unfold base, cs in *; cbn [fst snd set_cur pending foc cur] in *.
-      split; [exact S|]. split; [exact Rg|]. split; [exact A|]. split; [exact Fo | lia].
+      destruct B as (S & Rg & A & Fo). unfold base, cs in *; cbn [fst snd set_cur pending foc cur] in *.
+      split; [exact S|]. split; [exact Rg|]. split; [|lia].
+      intros j H. destruct (A j H) as [A1 A2]. split; [exact A1 | lia].
   Qed.
 
   Lemma acc_snoc a tr e a' :
@@ -1405,7 +1421,7 @@ Section Sim.
   Lemma rel_prim c c' a :
     prim M c c' -> base c -> noclash (ct c') -> Rel c a -> exists a', Rel c' a'.
   Proof.
-    intros P B NC R. destruct B as (S & Rg & _ & Fo & _).
+    intros P B NC R. destruct B as (S & Rg & _ & Fo).
     pose proof (acc_from_inv (ct c) a0 [] a AInv_init (r_acc _ _ R)) as AI. cbn [app] in AI.
     destruct R as [Racc Ridle Rnt Rtick Ropen Rfl].
     destruct P as [c c' P|s tr m Hm|s tr id k G|s tr id k e G|s tr Ar Pe|s tr Ar Pn|s tr id e G D LM
@@ -1674,7 +1690,7 @@ Section Final.
   Theorem timer_armed ops j k e :
     aget k (pending (final_g M ops)) = Some e -> inc_of M k = j ->
     armed_of (final_g M ops) j = true.
-  Proof. intros G I. destruct (sim_run ops) as [(_ & _ & A & _) _]. apply A. exists k, e. auto. Qed.
+  Proof. intros G I. destruct (sim_run ops) as [(_ & _ & A & _) _]. apply (A j). exists k, e. auto. Qed.
 
   Theorem next_range ops j : 0 <= next_of (final_g M ops) j <= M.
   Proof. destruct (sim_run ops) as [(_ & R & _) _]. apply R. Qed.
@@ -1685,8 +1701,9 @@ End Final.
 
 (* discard and frame: state level, any state *)
 Lemma discard_step M s id k :
-  aget id (pending s) = None -> step M s (Resp id k) = (s, [EResp id k; EDrop id]).
-Proof. intro H. cbn [step]. unfold handle_resp. rewrite H. reflexivity. Qed.
+  aget (rkey M (cur s) id) (pending s) = None ->
+  step M s (Resp id k) = (s, [EResp (rkey M (cur s) id) k; EDrop (rkey M (cur s) id)]).
+Proof. intro H. cbn [step tick_real]. unfold handle_resp. rewrite H. reflexivity. Qed.
 
 Lemma notify_step M s : step M s (Do ANotify) = (s, [EDo; ESent 0 (-1)]).
 Proof. reflexivity. Qed.
@@ -1716,6 +1733,7 @@ Proof. unfold Timeout. lia. Qed.
 
 Section Scan.
   Variable M : Z.
+  Hypothesis M_pos : 1 <= M.
 
   Lemma fire_facts s id c :
     clock (fst (fire M s id c)) = clock s /\ nomark (snd (fire M s id c)) /\
@@ -1733,43 +1751,55 @@ Section Scan.
     - split; [reflexivity|]. split; [intros x []|]. intros id' e' H. right. right. auto.
   Qed.
 
-  Lemma fire_all_facts ids : forall s,
+  (* Q picks the ids of interest (those of the scanning incarnation) *)
+  Lemma fire_all_facts (Q : Z -> Prop) ids : forall s,
     clock (fst (fire_all M s ids)) = clock s /\ nomark (snd (fire_all M s ids)) /\
-    ((forall id e, aget id (pending s) = Some e -> e_dl e < clock s -> In id ids) ->
-     forall id e, aget id (pending (fst (fire_all M s ids))) = Some e -> clock s <= e_dl e).
+    ((forall id e, aget id (pending s) = Some e -> Q id -> e_dl e < clock s -> In id ids) ->
+     forall id e, aget id (pending (fst (fire_all M s ids))) = Some e -> Q id -> clock s <= e_dl e).
   Proof.
     induction ids as [|id0 r IH]; intro s; cbn [fire_all fst snd].
-    - split; [reflexivity|]. split; [intros x []|]. intros P id e H.
-      destruct (Z.lt_ge_cases (e_dl e) (clock s)) as [L|L]; [destruct (P id e H L) | exact L].
+    - split; [reflexivity|]. split; [intros x []|]. intros P id e H Hq.
+      destruct (Z.lt_ge_cases (e_dl e) (clock s)) as [L|L]; [destruct (P id e H Hq L) | exact L].
     - destruct (fire_facts s id0 RTimeout) as (C1 & M1 & N1).
       destruct (IH (fst (fire M s id0 RTimeout))) as (C2 & M2 & P2).
       split; [congruence|]. split; [apply nomark_app; assumption|].
-      intros P id e H. rewrite <- C1. refine (P2 _ id e H).
-      intros id' e' H' L'. rewrite C1 in L'.
+      intros P id e H Hq. rewrite <- C1. refine (P2 _ id e H Hq).
+      intros id' e' H' Hq' L'. rewrite C1 in L'.
       destruct (N1 id' e' H') as [[Ne K]|[K|[K0 K]]].
-      + destruct (P id' e' K L') as [E|I]; [congruence | exact I].
+      + destruct (P id' e' K Hq' L') as [E|I]; [congruence | exact I].
       + pose proof timeout_pos. lia.
-      + destruct (P id' e' K L') as [E|I]; [subst; congruence | exact I].
+      + destruct (P id' e' K Hq' L') as [E|I]; [subst; congruence | exact I].
   Qed.
 
+  Lemma block_nil_none s id e :
+    block M (foc s) (pending s) = [] -> aget id (pending s) = Some e -> inc_of M id <> foc s.
+  Proof.
+    intros B G I. apply aget_in in G.
+    assert (H : In (id, e) (block M (foc s) (pending s))).
+    { unfold block. apply filter_In. split; [exact G|]. cbn [fst]. lia. }
+    rewrite B in H. inversion H.
+  Qed.
+
+  (* after the scan of the incarnation in focus none of ITS requests is expired *)
   Lemma tick_post s h :
     armed s = true ->
-    forall id e, aget id (pending (fst (tick M s h))) = Some e -> clock s <= e_dl e.
+    forall id e, aget id (pending (fst (tick M s h))) = Some e -> inc_of M id = foc s ->
+                 clock s <= e_dl e.
   Proof.
     intros A id e. unfold tick. rewrite A. cbn [fst]. unfold check_expired.
-    destruct (pending s) as [|x m] eqn:P; cbn [isnil fst].
-    - cbn [set_armed pending]. rewrite P. discriminate.
-    - destruct (fire_all_facts (order M h s) s) as (_ & _ & K). apply K.
-      intros id' e' H L. unfold order. apply dedup_complete; [|intros []].
+    destruct (block M (foc s) (pending s)) as [|x m] eqn:P; cbn [isnil fst].
+    - cbn [set_armed pending]. intros G I. exfalso. eapply block_nil_none; eassumption.
+    - destruct (fire_all_facts (fun id => inc_of M id = foc s) (order M h s) s) as (_ & _ & K). apply K.
+      intros id' e' H I L. unfold order. apply dedup_complete; [|intros []].
       apply in_or_app. right. unfold expired_ids. apply filter_In. split.
       + apply aget_in in H. apply (in_map fst) in H. exact H.
-      + unfold expired_b. rewrite H. lia.
+      + unfold expired_b. rewrite H. apply andb_true_iff. split; lia.
   Qed.
 
   Lemma tick_clock s h : clock (fst (tick M s h)) = clock s.
   Proof.
     unfold tick. destruct (armed s); [|reflexivity]. cbn [fst]. unfold check_expired.
-    destruct (isnil (pending s)); [reflexivity|]. apply fire_all_facts.
+    destruct (isnil (block M (foc s) (pending s))); [reflexivity|]. apply (fire_all_facts (fun _ => True)).
   Qed.
 
   Lemma tick_shape s h :
@@ -1778,26 +1808,122 @@ Section Scan.
   Proof.
     unfold tick. destruct (armed s); [left | right; auto]. split; [reflexivity|]. cbn [snd].
     eexists. split; [reflexivity|]. unfold check_expired.
-    destruct (isnil (pending s)); [intros x []|]. apply fire_all_facts.
+    destruct (isnil (block M (foc s) (pending s))); [intros x []|]. apply (fire_all_facts (fun _ => True)).
   Qed.
 
-  (* the timer is switched off only by a scan that finds the table empty *)
+  (* chains of user actions never switch a timer off and act on one incarnation only *)
+  Lemma istar_keeps c c' :
+    istar M c c' ->
+    (armed (cs c) = true -> armed (cs c') = true) /\
+    foc (cs c') = foc (cs c) /\ rest (cs c') = rest (cs c) /\ cur (cs c') = cur (cs c).
+  Proof.
+    induction 1 as [c|c1 c2 c3 H1 _ IH2]; [auto|].
+    destruct IH2 as (A2 & F2 & R2 & C2).
+    assert (K : (armed (cs c1) = true -> armed (cs c2) = true) /\
+                foc (cs c2) = foc (cs c1) /\ rest (cs c2) = rest (cs c1) /\ cur (cs c2) = cur (cs c1)).
+    { destruct H1; unfold cs; cbn [fst snd register armed foc rest cur set_ntags]; auto. }
+    destruct K as (A1 & F1 & R1 & C1).
+    split; [auto|]. split; [congruence|]. split; congruence.
+  Qed.
+
+  Lemma fire_keeps s id c :
+    (armed s = true -> armed (fst (fire M s id c)) = true) /\
+    foc (fst (fire M s id c)) = foc s /\ rest (fst (fire M s id c)) = rest s /\
+    cur (fst (fire M s id c)) = cur s.
+  Proof.
+    unfold fire. destruct (aget id (pending s)) as [e|]; cbn [fst]; [|auto].
+    cbn [set_pending armed foc rest cur].
+    apply (istar_keeps _ _ (exec_prog_istar M (e_prog e) None s [])).
+  Qed.
+
+  Lemma fire_all_keeps ids : forall s,
+    (armed s = true -> armed (fst (fire_all M s ids)) = true) /\
+    foc (fst (fire_all M s ids)) = foc s /\ rest (fst (fire_all M s ids)) = rest s /\
+    cur (fst (fire_all M s ids)) = cur s.
+  Proof.
+    induction ids as [|i r IH]; intro s; cbn [fire_all fst]; [auto|].
+    destruct (fire_keeps s i RTimeout) as (A1 & F1 & R1 & C1).
+    destruct (IH (fst (fire M s i RTimeout))) as (A2 & F2 & R2 & C2).
+    split; [auto|]. split; [congruence|]. split; congruence.
+  Qed.
+
+  Lemma tick_keeps s h :
+    foc (fst (tick M s h)) = foc s /\ rest (fst (tick M s h)) = rest s /\ cur (fst (tick M s h)) = cur s.
+  Proof.
+    unfold tick. destruct (armed s); [|auto]. cbn [fst]. unfold check_expired.
+    destruct (isnil (block M (foc s) (pending s))); cbn [fst set_armed foc rest cur]; [auto|].
+    apply fire_all_keeps.
+  Qed.
+
+  (* the timer is switched off only by a scan that finds the incarnation's own table empty *)
   Lemma tick_disarm s h :
     armed s = true -> armed (fst (tick M s h)) = false ->
-    pending s = [] /\ tick M s h = (set_armed s false, [ETick (clock s)]).
+    block M (foc s) (pending s) = [] /\ tick M s h = (set_armed s false, [ETick (clock s)]).
   Proof.
-    intros A D. destruct (pending s) as [|x m] eqn:P.
+    intros A D. destruct (block M (foc s) (pending s)) as [|x m] eqn:P.
     - split; [reflexivity|]. unfold tick, check_expired. rewrite A, P. reflexivity.
-    - exfalso. assert (K : forall ids s0, armed s0 = true -> armed (fst (fire_all M s0 ids)) = true).
-      { induction ids as [|i r IH]; intros s0 A0; cbn [fire_all fst]; [exact A0|]. apply IH.
-        unfold fire. destruct (aget i (pending s0)) as [e|]; cbn [fst]; [|exact A0].
-        cbn [set_pending armed]. clear - A0.
-        assert (G : forall c c', istar M c c' -> armed (cs c) = true -> armed (cs c') = true).
-        { induction 1 as [c|c1 c2 c3 H1 _ IH2]; [auto|]. intro A1. apply IH2.
-          destruct H1; unfold cs in *; cbn [fst snd register armed set_ntags] in *; auto. }
-        apply (G _ _ (exec_prog_istar M (e_prog e) None s0 [])). exact A0. }
-      unfold tick, check_expired in D. rewrite A, P in D. cbn [isnil fst] in D.
-      rewrite K in D; [discriminate | exact A].
+    - exfalso. unfold tick, check_expired in D. rewrite A, P in D. cbn [isnil fst] in D.
+      rewrite (proj1 (fire_all_keeps (order M h s) s)) in D; [discriminate | exact A].
+  Qed.
+
+  (* ---- one incarnation's scan does not touch the tables of the others *)
+
+  Definition frame (s s' : st) : Prop :=
+    forall id, inc_of M id <> foc s -> aget id (pending s') = aget id (pending s).
+
+  Lemma istar_frame c c' :
+    istar M c c' -> 0 <= next (cs c) <= M ->
+    0 <= next (cs c') <= M /\ frame (cs c) (cs c').
+  Proof.
+    induction 1 as [c|c1 c2 c3 H1 _ IH2]; intro R; [split; [exact R | intros id _; reflexivity]|].
+    assert (K : 0 <= next (cs c2) <= M /\ frame (cs c1) (cs c2) /\ foc (cs c2) = foc (cs c1)).
+    { destruct H1 as [f s tr u p|f s tr|f s tr]; unfold cs, frame in *; cbn [fst snd] in *.
+      - unfold register; cbn [fst next pending foc]. unfold alloc_id.
+        split; [destruct (Z.leb_spec M (next s)); lia|]. split; [|reflexivity].
+        intros id N. apply aget_aset_other. intro E. apply N. rewrite E.
+        apply inc_of_key. destruct (Z.leb_spec M (next s)); lia.
+      - auto.
+      - cbn [set_ntags next pending foc]. auto. }
+    destruct K as (R2 & F2 & Fo). destruct (IH2 R2) as (R3 & F3).
+    split; [exact R3|]. intros id N. rewrite F3 by (rewrite Fo; exact N). apply F2. exact N.
+  Qed.
+
+  Lemma fire_frame s id c :
+    0 <= next s <= M -> inc_of M id = foc s ->
+    0 <= next (fst (fire M s id c)) <= M /\ frame s (fst (fire M s id c)).
+  Proof.
+    intros R I. unfold fire. destruct (aget id (pending s)) as [e|]; cbn [fst];
+      [|split; [exact R | intros x _; reflexivity]].
+    destruct (istar_frame _ _ (exec_prog_istar M (e_prog e) None s []) R) as (R2 & F2).
+    unfold cs in *; cbn [fst snd] in *. cbn [set_pending next pending].
+    split; [exact R2|]. intros x N. cbn [set_pending pending].
+    rewrite aget_adel_other by (intro E; apply N; rewrite E; exact I). apply F2. exact N.
+  Qed.
+
+  Lemma fire_all_frame ids : forall s,
+    0 <= next s <= M -> (forall id, In id ids -> inc_of M id = foc s) ->
+    0 <= next (fst (fire_all M s ids)) <= M /\ frame s (fst (fire_all M s ids)).
+  Proof.
+    induction ids as [|i r IH]; intros s R Hin; cbn [fire_all fst]; [split; [exact R | intros x _; reflexivity]|].
+    destruct (fire_frame s i RTimeout R (Hin i (or_introl eq_refl))) as (R1 & F1).
+    destruct (fire_keeps s i RTimeout) as (_ & Fo & _).
+    destruct (IH (fst (fire M s i RTimeout)) R1) as (R2 & F2).
+    { intros id I. rewrite Fo. apply Hin. right. exact I. }
+    split; [exact R2|]. intros x N. rewrite F2 by (rewrite Fo; exact N). apply F1. exact N.
+  Qed.
+
+  Lemma order_in_block h s id : In id (order M h s) -> inc_of M id = foc s.
+  Proof.
+    intro I. destruct (order_spec M h s) as [_ S]. apply S in I.
+    unfold expired_ids in I. apply filter_In in I. destruct I as [_ E].
+    unfold expired_b in E. apply andb_true_iff in E. lia.
+  Qed.
+
+  Lemma tick_frame s h : 0 <= next s <= M -> frame s (fst (tick M s h)).
+  Proof.
+    intro R. unfold tick. destruct (armed s); [|intros x _; reflexivity]. cbn [fst]. unfold check_expired.
+    destruct (isnil (block M (foc s) (pending s))); cbn [fst]; [intros x _; reflexivity|].
+    apply fire_all_frame; [exact R | intros id I; eapply order_in_block; exact I].
   Qed.
 End Scan.
 
@@ -1813,18 +1939,85 @@ Section Drain.
   Variable M : Z.
   Hypothesis M_pos : 1 <= M.
 
-  (* entries that survive a Tick operation are not expired, armed or not *)
+  (* no request of incarnation j is expired *)
+  Definition unexp (j : Z) (s : st) : Prop :=
+    forall id e, aget id (pending s) = Some e -> inc_of M id = j -> clock s <= e_dl e.
+
+  (* the scan of one incarnation, in any state that satisfies the invariant *)
+  Lemma tick_one s j h :
+    base M (None, s, []) -> 0 <= j <= cur s ->
+    let s' := fst (tick M (focus s j) h) in
+    base M (None, s', []) /\ clock s' = clock s /\ cur s' = cur s /\ unexp j s' /\
+    (forall j', unexp j' s -> unexp j' s').
+  Proof.
+    intros B Hj s'.
+    destruct (focus_frame s j) as (Pf & Cf & _ & Cuf & Ff).
+    assert (B1 : base M (None, focus s j, [])) by (eapply base_prim; [exact M_pos | apply (PFocus M s [] j Hj) | exact B]).
+    assert (B2 : base M (None, s', [] ++ snd (tick M (focus s j) h))).
+    { refine (star_inv M (base M) _ _ _ (tick_star M (focus s j) [] h) B1).
+      intros c c' P. apply base_prim; assumption. }
+    assert (Cl : clock s' = clock s) by (unfold s'; rewrite tick_clock; exact Cf).
+    assert (U : unexp j s').
+    { intros id e G I. rewrite Cl, <- Cf.
+      destruct (armed (focus s j)) eqn:A.
+      - apply (tick_post M (focus s j) h A id e G). rewrite Ff. exact I.
+      - exfalso. unfold s', tick in G. rewrite A in G. cbn [fst] in G.
+        destruct B1 as (_ & _ & A1 & _). unfold cs in A1; cbn [fst snd] in A1.
+        destruct (A1 j) as [A2 _]; [exists id, e; auto|].
+        pose proof (armed_of_foc (focus s j)) as E. rewrite Ff in E. congruence. }
+    split; [exact B2|]. split; [exact Cl|]. split; [unfold s'; rewrite tick_cur; exact Cuf|]. split; [exact U|].
+    intros j' U'. destruct (Z.eq_dec j' j) as [->|Ne]; [exact U|].
+    intros id e G I. rewrite Cl.
+    assert (R : 0 <= next (focus s j) <= M).
+    { destruct B1 as (_ & Rg & _). unfold cs in Rg; cbn [fst snd] in Rg. specialize (Rg j).
+      pose proof (next_of_foc (focus s j)) as E. rewrite Ff in E. rewrite <- E. exact Rg. }
+    pose proof (tick_frame M M_pos (focus s j) h R id) as Fr. fold s' in Fr.
+    rewrite Fr in G by (rewrite Ff; lia). rewrite Pf in G. apply (U' id e G I).
+  Qed.
+
+  Lemma tick_all_post js : forall s h,
+    base M (None, s, []) -> (forall j, In j js -> 0 <= j <= cur s) ->
+    let s' := fst (tick_all M s js h) in
+    base M (None, s', []) /\ clock s' = clock s /\ cur s' = cur s /\
+    (forall j, In j js -> unexp j s') /\ (forall j, unexp j s -> unexp j s').
+  Proof.
+    induction js as [|j r IH]; intros s h B Hin; cbn [tick_all fst].
+    - split; [exact B|]. split; [reflexivity|]. split; [reflexivity|]. split; [intros j []|auto].
+    - destruct (tick_one s j (hd [] h) B (Hin j (or_introl eq_refl))) as (B1 & C1 & Cu1 & U1 & K1).
+      destruct (IH (fst (tick M (focus s j) (hd [] h))) (tl h) B1) as (B2 & C2 & Cu2 & U2 & K2).
+      { intros j' I. rewrite Cu1. apply Hin. right. exact I. }
+      split; [exact B2|]. split; [congruence|]. split; [congruence|]. split.
+      + intros j' [<-|I]; [apply K2; exact U1 | apply U2; exact I].
+      + intros j' U. apply K2, K1. exact U.
+  Qed.
+
+  (* entries that survive a Tick operation are not expired - whichever incarnation they belong
+     to, alive or replaced long ago *)
+  Lemma tick_op_post s hint :
+    base M (None, s, []) ->
+    let s' := fst (tick_op M s hint) in
+    base M (None, s', []) /\ clock s' = clock s /\
+    forall id e, aget id (pending s') = Some e -> clock s <= e_dl e.
+  Proof.
+    intros B s'. unfold s', tick_op. cbn [fst].
+    pose proof B as (_ & _ & _ & Fo). unfold cs in Fo; cbn [fst snd] in Fo.
+    destruct (tick_all_post (incs s) s hint B) as (B' & C' & Cu' & U' & _).
+    { intros j I. apply incs_range; [lia | exact I]. }
+    destruct (focus_frame (fst (tick_all M s (incs s) hint)) (cur s)) as (Pf & Cf & _).
+    split; [|split].
+    - eapply base_prim; [exact M_pos | apply (PFocus M _ [] (cur s)) | exact B']. rewrite Cu'. lia.
+    - rewrite Cf. exact C'.
+    - intros id e H. rewrite Pf in H. rewrite <- C'.
+      destruct B' as (_ & _ & A' & _). unfold cs in A'; cbn [fst snd] in A'.
+      destruct (A' (inc_of M id)) as [_ Rg]; [exists id, e; auto|]. rewrite Cu' in Rg.
+      refine (U' (inc_of M id) _ id e H eq_refl). apply incs_all. exact Rg.
+  Qed.
+
   Lemma after_tick h hint id e :
     aget id (pending (final_g M (h ++ [Tick hint]))) = Some e -> clock (final_g M h) <= e_dl e.
   Proof.
-    rewrite final_snoc. cbn [step]. intro H.
-    destruct (armed (final_g M h)) eqn:A.
-    - eapply tick_post; eassumption.
-    - exfalso. unfold tick in H. rewrite A in H. cbn [fst] in H.
-      assert (P : pending (final_g M h) = []).
-      { destruct (pending (final_g M h)) eqn:P; [reflexivity|].
-        rewrite (timer_armed M M_pos h) in A; [discriminate | rewrite P; discriminate]. }
-      rewrite P in H. discriminate.
+    rewrite final_snoc. cbn [step tick_real]. intro H.
+    destruct (tick_op_post (final_g M h) hint (base_run M M_pos h)) as (_ & _ & K). apply (K id e H).
   Qed.
 
   Theorem drain_complete h hint t id n :
@@ -1869,36 +2062,68 @@ Section Wrap.
   Variable M : Z.
   Hypothesis M_pos : 1 <= M.
 
-  (* where the id of an entry allocated j allocations ago lies, while j < M *)
-  Definition pos_ok (s : st) (id : Z) (e : entry) : Prop :=
-    e_ser e < nalloc s /\
-    (nalloc s - 1 - e_ser e < M ->
-     id = if 1 <=? next s - (nalloc s - 1 - e_ser e)
-          then next s - (nalloc s - 1 - e_ser e)
-          else next s - (nalloc s - 1 - e_ser e) + M).
+  (* where the id of an entry allocated d allocations (of its own incarnation) ago lies, while d < M *)
+  Definition wpos (n d : Z) : Z := if 1 <=? n - d then n - d else n - d + M.
+
+  Definition pos_ok (v : Z * bool * Z) (j id : Z) (e : entry) : Prop :=
+    e_ser e < snd v /\
+    (snd v - 1 - e_ser e < M -> id = key M j (wpos (fst (fst v)) (snd v - 1 - e_ser e))).
 
   Definition W (c : cfg) : Prop :=
-    0 <= next (cs c) <= M /\
-    (forall id e, aget id (pending (cs c)) = Some e -> pos_ok (cs c) id e) /\
+    (forall id e, aget id (pending (cs c)) = Some e ->
+                  pos_ok (view (cs c) (inc_of M id)) (inc_of M id) id e) /\
     (forall id sp, In (EClash id sp) (ct c) -> M <= sp).
 
-  Lemma W_prim c c' : prim M c c' -> W c -> W c'.
+  Lemma pos_ok_ext v v' j id e :
+    fst (fst v') = fst (fst v) -> snd v' = snd v -> pos_ok v j id e -> pos_ok v' j id e.
+  Proof. unfold pos_ok. intros -> ->. auto. Qed.
+
+  (* a state that differs from s in the focused incarnation's timer flag and in the table only *)
+  Lemma W_same s s' tr tr' f f' :
+    foc s' = foc s -> rest s' = rest s -> next s' = next s -> nalloc s' = nalloc s ->
+    (forall id e, aget id (pending s') = Some e -> aget id (pending s) = Some e) ->
+    (forall id sp, In (EClash id sp) tr' -> In (EClash id sp) tr) ->
+    W (f, s, tr) -> W (f', s', tr').
   Proof.
-    intros P (R & Pos & Cl). unfold W.
+    intros F R N Na Sub Cl (Pos & C). unfold W, cs, ct in *; cbn [fst snd] in *. split.
+    - intros id e G. specialize (Pos id e (Sub id e G)).
+      eapply pos_ok_ext; [| |exact Pos].
+      + rewrite (views_upd s s' F R). destruct (Z.eqb_spec (inc_of M id) (foc s)) as [E|_]; [|reflexivity].
+        rewrite E, view_foc. cbn [fst]. exact N.
+      + rewrite (views_upd s s' F R). destruct (Z.eqb_spec (inc_of M id) (foc s)) as [E|_]; [|reflexivity].
+        rewrite E, view_foc. cbn [snd]. exact Na.
+    - intros id sp I. apply (C id sp). apply Cl. exact I.
+  Qed.
+
+  Lemma W_prim c c' : prim M c c' -> base M c -> W c -> W c'.
+  Proof.
+    intros P B Wc.
     destruct P as [c c' P|s tr m Hm|s tr id k G|s tr id k e G|s tr Ar Pe|s tr Ar Pn|s tr id e G D LM
-                   |s tr id|s tr dt Hd|s tr v Hv Pe]; unfold cs, ct in *; cbn [fst snd] in *.
-    - destruct P as [f s tr u p|f s tr|f s tr]; cbn [fst snd] in *.
-      + unfold register; cbn [fst snd pending next nalloc].
-        pose proof (alloc_range M M_pos (next s) R) as Hid.
-        split; [lia|]. split.
-        * intros id e H. destruct (Z.eq_dec id (alloc_id M (next s))) as [->|Ne].
-          { rewrite aget_aset_same in H. inv H. unfold pos_ok; cbn [e_ser nalloc next].
-            split; [lia|]. intros _. replace (nalloc s + 1 - 1 - nalloc s) with 0 by lia.
-            rewrite Z.sub_0_r. destruct (Z.leb_spec 1 (alloc_id M (next s))); [reflexivity | lia]. }
-          { rewrite aget_aset_other in H by exact Ne. destruct (Pos id e H) as [L F].
-            unfold pos_ok; cbn [nalloc next]. split; [lia|]. intro J.
-            assert (J0 : nalloc s - 1 - e_ser e < M) by lia. specialize (F J0).
-            unfold alloc_id in *. destruct (Z.leb_spec M (next s)).
+                   |s tr id|s tr dt Hd|s tr v Hv Pe|s tr j Hj|s tr].
+    - destruct P as [f s tr u p|f s tr|f s tr].
+      + (* register *)
+        destruct Wc as (Pos & Cl). destruct B as (_ & Rg & _). unfold W, cs, ct in *; cbn [fst snd] in *.
+        pose proof (Rg (foc s)) as R0. rewrite next_of_foc in R0.
+        pose proof (alloc_range M M_pos _ R0) as Hid.
+        set (a := alloc_id M (next s)) in *. set (k := key M (foc s) a).
+        assert (Ik : inc_of M k = foc s) by (apply inc_of_key; lia).
+        unfold register; cbn [fst snd pending]. fold a. fold k.
+        set (s' := mkS (aset k (mkE (clock s + Timeout) (ntags s) (nalloc s) p) (pending s)) a true
+                       (clock s) (ntags s + 1) (nalloc s + 1) (foc s) (cur s) (rest s)).
+        assert (V : forall j, view s' j = if j =? foc s then (a, true, nalloc s + 1) else view s j)
+          by (intro j; apply (views_upd s s'); reflexivity).
+        split.
+        * intros id e H. destruct (Z.eq_dec id k) as [->|Ne].
+          { rewrite aget_aset_same in H. inv H. rewrite Ik, V, Z.eqb_refl.
+            unfold pos_ok; cbn [fst snd e_ser]. split; [lia|]. intros _.
+            replace (nalloc s + 1 - 1 - nalloc s) with 0 by lia. unfold wpos.
+            rewrite Z.sub_0_r. destruct (Z.leb_spec 1 a); [reflexivity | lia]. }
+          { rewrite aget_aset_other in H by exact Ne. specialize (Pos id e H). rewrite V.
+            destruct (Z.eqb_spec (inc_of M id) (foc s)) as [E|_]; [|exact Pos].
+            rewrite E, view_foc in Pos. rewrite E. destruct Pos as [L F].
+            unfold pos_ok in *; cbn [fst snd] in *. split; [lia|]. intro J.
+            assert (J0 : nalloc s - 1 - e_ser e < M) by lia. specialize (F J0). rewrite F. f_equal.
+            unfold wpos, a, alloc_id. destruct (Z.leb_spec M (next s)).
             - assert (next s = M) by lia.
               destruct (Z.leb_spec 1 (next s - (nalloc s - 1 - e_ser e)));
               destruct (Z.leb_spec 1 (1 - (nalloc s + 1 - 1 - e_ser e))); lia.
@@ -1906,42 +2131,58 @@ Section Wrap.
               destruct (Z.leb_spec 1 (next s + 1 - (nalloc s + 1 - 1 - e_ser e))); lia. }
         * intros id sp I. apply in_app_or in I. destruct I as [I|I]; [apply (Cl id sp I)|].
           apply in_app_or in I. destruct I as [I|I].
-          { destruct (aget (alloc_id M (next s)) (pending s)) as [v|] eqn:G; [|inversion I].
-            destruct I as [E|[]]. inv E. destruct (Pos _ _ G) as [L F].
+          { destruct (aget k (pending s)) as [v|] eqn:G; [|inversion I].
+            destruct I as [E|[]]. inv E. specialize (Pos _ _ G). rewrite Ik, view_foc in Pos.
+            destruct Pos as [L F]. cbn [fst snd] in L, F.
             destruct (Z.lt_ge_cases (nalloc s - e_ser v) M) as [Lt|Ge]; [|exact Ge]. exfalso.
             assert (J0 : nalloc s - 1 - e_ser v < M) by lia. specialize (F J0).
-            unfold alloc_id in *. destruct (Z.leb_spec M (next s));
+            unfold k, key in F. assert (F' : a = wpos (next s) (nalloc s - 1 - e_ser v)) by lia.
+            unfold wpos, a, alloc_id in F'. destruct (Z.leb_spec M (next s));
               destruct (Z.leb_spec 1 (next s - (nalloc s - 1 - e_ser v))); lia. }
           { destruct I as [E|I]; [discriminate|]. destruct u; [inversion I|]. destruct I as [E|[]]. discriminate. }
-      + split; [exact R|]. split; [exact Pos|]. intros id sp I. apply in_snoc in I. destruct I as [I|E]; [eapply Cl; eassumption | discriminate].
-      + cbn [set_ntags next pending]. split; [exact R|]. split; [exact Pos|].
-        intros id sp I. apply in_app_or in I. destruct I as [I|[E|[E|[]]]]; [eapply Cl; eassumption | discriminate | discriminate].
-    - split; [exact R|]. split; [exact Pos|]. intros id' sp I. apply in_snoc in I.
-      destruct I as [I|E]; [eapply Cl; eassumption | destruct Hm; subst; discriminate].
-    - split; [exact R|]. split; [exact Pos|]. intros id' sp I. apply in_app_or in I.
-      destruct I as [I|[E|[E|[]]]]; [eapply Cl; eassumption | discriminate | discriminate].
-    - split; [exact R|]. split; [exact Pos|]. intros id' sp I. apply in_app_or in I.
-      destruct I as [I|[E|[E|[]]]]; [eapply Cl; eassumption | discriminate | discriminate].
-    - cbn [set_armed next pending]. split; [exact R|]. split; [exact Pos|]. intros id' sp I. apply in_snoc in I.
-      destruct I as [I|E]; [eapply Cl; eassumption | discriminate].
-    - split; [exact R|]. split; [exact Pos|]. intros id' sp I. apply in_snoc in I.
-      destruct I as [I|E]; [eapply Cl; eassumption | discriminate].
-    - split; [exact R|]. split; [exact Pos|]. intros id' sp I. apply in_snoc in I.
-      destruct I as [I|E]; [eapply Cl; eassumption | discriminate].
-    - cbn [set_pending next pending]. split; [exact R|]. split; [|exact Cl].
-      intros id' e' H. destruct (Z.eq_dec id' id) as [->|Ne]; [rewrite aget_adel_same in H; discriminate|].
-      rewrite aget_adel_other in H by exact Ne. apply (Pos id' e' H).
-    - cbn [set_clock next pending]. split; [exact R|]. split; [exact Pos | exact Cl].
-    - cbn [set_next next pending]. split; [lia|]. split; [|exact Cl]. rewrite Pe. intros id' e' H. discriminate.
+      + eapply W_same; [| | | | | |exact Wc]; try reflexivity; [auto|].
+        intros id sp I. apply in_snoc in I. destruct I as [I|E]; [exact I | discriminate].
+      + eapply W_same; [| | | | | |exact Wc]; try reflexivity; [auto|].
+        intros id sp I. apply in_app_or in I. destruct I as [I|[E|[E|[]]]]; [exact I | discriminate | discriminate].
+    - eapply W_same; [| | | | | |exact Wc]; try reflexivity; [auto|].
+      intros id' sp I. apply in_snoc in I. destruct I as [I|E]; [exact I | destruct Hm; subst; discriminate].
+    - eapply W_same; [| | | | | |exact Wc]; try reflexivity; [auto|].
+      intros id' sp I. apply in_app_or in I. destruct I as [I|[E|[E|[]]]]; [exact I | discriminate | discriminate].
+    - eapply W_same; [| | | | | |exact Wc]; try reflexivity; [auto|].
+      intros id' sp I. apply in_app_or in I. destruct I as [I|[E|[E|[]]]]; [exact I | discriminate | discriminate].
+    - eapply W_same; [| | | | | |exact Wc]; try reflexivity; [auto|].
+      intros id' sp I. apply in_snoc in I. destruct I as [I|E]; [exact I | discriminate].
+    - eapply W_same; [| | | | | |exact Wc]; try reflexivity; [auto|].
+      intros id' sp I. apply in_snoc in I. destruct I as [I|E]; [exact I | discriminate].
+    - eapply W_same; [| | | | | |exact Wc]; try reflexivity; [auto|].
+      intros id' sp I. apply in_snoc in I. destruct I as [I|E]; [exact I | discriminate].
+    - eapply W_same; [| | | | | |exact Wc]; try reflexivity; [|auto].
+      cbn [set_pending pending]. intros id' e' H.
+      destruct (Z.eq_dec id' id) as [->|Ne]; [rewrite aget_adel_same in H; discriminate|].
+      rewrite aget_adel_other in H by exact Ne. exact H.
+    - eapply W_same; [| | | | | |exact Wc]; try reflexivity; auto.
+    - (* set next: the table is empty *)
+      destruct Wc as (_ & Cl). unfold W, cs, ct; cbn [fst snd set_next pending]. split; [|exact Cl].
+      rewrite Pe. intros id' e' H. discriminate.
+    - (* focus *)
+      destruct Wc as (Pos & Cl). unfold W, cs, ct in *; cbn [fst snd] in *.
+      destruct (focus_frame s j) as (P & _). rewrite P. split; [|exact Cl].
+      intros id e H. rewrite view_focus. apply Pos. exact H.
+    - (* restart *)
+      destruct Wc as (Pos & Cl). unfold W, cs, ct in *; cbn [fst snd set_cur pending] in *. split.
+      + intros id e H. apply (Pos id e H).
+      + intros id sp I. apply in_snoc in I. destruct I as [I|E]; [eapply Cl; eassumption | discriminate].
   Qed.
 
-  (* a registration overwrites a live entry only if at least M ids were allocated since
-     (and including) that entry's own *)
+  (* a registration overwrites a live entry only if at least M ids were allocated BY THAT
+     INCARNATION since (and including) that entry's own *)
   Theorem clash_needs_wrap ops id sp : In (EClash id sp) (trace_g M ops) -> M <= sp.
   Proof.
-    assert (H : W (None, final_g M ops, trace_g M ops)).
-    { apply (run_inv M W); [intros c c' P; apply W_prim; exact P|].
-      unfold W, cs, ct; cbn. split; [lia|]. split; [intros; discriminate | intros ? ? []]. }
+    assert (H : base M (None, final_g M ops, trace_g M ops) /\ W (None, final_g M ops, trace_g M ops)).
+    { apply (run_inv M (fun c => base M c /\ W c)).
+      - intros c c' P [B Wc]. split; [eapply base_prim; eassumption | eapply W_prim; eassumption].
+      - split; [apply (sim_init M M_pos)|].
+        unfold W, cs, ct; cbn. split; [intros; discriminate | intros ? ? []]. }
     destruct H as (_ & _ & Cl). apply Cl.
   Qed.
 End Wrap.
@@ -1963,9 +2204,96 @@ Proof.
   intros p q. apply pair_eqb_spec; intros; apply Z.eqb_eq.
 Qed.
 
-Section Monitor.
+Lemma maxreqid_pos : 1 <= MaxReqId.
+Proof. unfold MaxReqId. lia. Qed.
+
+Lemma lm_from_in l : forall acc e, lm_from acc l = Some e -> acc = Some e \/ In e l.
+Proof.
+  induction l as [|x r IH]; intros acc e H; [left; exact H|].
+  unfold lm_from in H. cbn [fold_left] in H. fold (lm_from (if is_marker x then Some x else acc) r) in H.
+  destruct (IH _ _ H) as [E|I]; [|right; right; exact I].
+  destruct (is_marker x); [inv E; right; left; reflexivity | left; exact E].
+Qed.
+
+(* the last marker of a block that begins with a marker is one of the block's own events *)
+Lemma last_marker_in tr m x e :
+  is_marker m = true -> last_marker (tr ++ m :: x) = Some e -> In e (m :: x).
+Proof.
+  intros Hm H. rewrite last_marker_app in H. unfold lm_from in H. cbn [fold_left] in H.
+  rewrite Hm in H. fold (lm_from (Some m) x) in H.
+  destruct (lm_from_in _ _ _ H) as [E|I]; [inv E; left; reflexivity | right; exact I].
+Qed.
+
+(* ------------------------------------------------------------------ that very request *)
+
+Lemma own_b_tail e r : own_b (e :: r) = true -> own_b r = true.
+Proof.
+  destruct e; cbn [own_b]; auto. intro H. apply andb_true_iff in H. tauto.
+Qed.
+
+Lemma own_b_sound tr : own_b tr = true -> answers_own tr.
+Proof.
+  induction tr as [|e r IH]; intros H p id k t c post E.
+  - destruct p; discriminate.
+  - destruct p as [|x p]; cbn [app] in E.
+    + inv E. cbn [own_b] in H. apply andb_true_iff in H. destruct H as [H _].
+      intros RC G. rewrite RC in H. cbn [negb orb] in H.
+      destruct (Z.ltb_spec (ghost_of k) 0); [lia|]. cbn [orb] in H. lia.
+    + inv E. apply (IH (own_b_tail _ _ H) p id k t c post eq_refl).
+Qed.
+
+Lemma own_b_complete tr : answers_own tr -> own_b tr = true.
+Proof.
+  induction tr as [|e r IH]; intro A; [reflexivity|].
+  assert (Ar : answers_own r).
+  { intros p id k t c post E. apply (A (e :: p) id k t c post). rewrite E. reflexivity. }
+  specialize (IH Ar).
+  destruct e; cbn [own_b]; try exact IH. rewrite IH, andb_true_r.
+  destruct r as [|e2 r2]; [reflexivity|]. destruct e2; try reflexivity.
+  destruct (reply_class c) eqn:RC; [|reflexivity]. cbn [negb orb].
+  destruct (Z.ltb_spec (ghost_of k) 0); [reflexivity|]. cbn [orb].
+  apply Z.eqb_eq. apply (A [] id k tag c r2 eq_refl RC). lia.
+Qed.
+
+Lemma answers_own_mid a evs b : answers_own (a ++ evs ++ b) -> answers_own evs.
+Proof.
+  intros A p id k t c post E. apply (A (a ++ p) id k t c (post ++ b)).
+  rewrite E, <- !app_assoc. reflexivity.
+Qed.
+
+Section Shape.
   Variable M : Z.
-  Hypothesis M_pos : 1 <= M.
+
+  (* shape of the events of a round of scans: blocks that begin with ETick (clock) or EIdle *)
+  Lemma tick_all_shape js : forall s h,
+    (js <> [] -> exists m x, snd (tick_all M s js h) = m :: x /\ (m = ETick (clock s) \/ m = EIdle)) /\
+    (forall n, In (ETick n) (snd (tick_all M s js h)) -> n = clock s) /\
+    (forall id k, ~ In (EResp id k) (snd (tick_all M s js h))) /\
+    ~ In ECrash (snd (tick_all M s js h)).
+  Proof.
+    induction js as [|j r IH]; intros s h; cbn [tick_all snd].
+    - split; [intro N; contradiction|]. split; [intros n []|]. split; [intros id k []|intros []].
+    - destruct (focus_frame s j) as (_ & Cf & _).
+      destruct (IH (fst (tick M (focus s j) (hd [] h))) (tl h)) as (_ & T2 & R2 & C2).
+      rewrite tick_clock, Cf in T2.
+      destruct (tick_shape M (focus s j) (hd [] h)) as [(_ & o & E & Mk)|(_ & E)]; rewrite E in *; cbn [snd fst] in *.
+      + rewrite Cf. split; [intros _; eexists; eexists; split; [reflexivity | left; reflexivity]|].
+        split; [|split].
+        * intros n [K|K]; [inv K; reflexivity|]. apply in_app_or in K. destruct K as [K|K]; [|apply T2; exact K].
+          apply Mk in K. discriminate.
+        * intros id k [K|K]; [discriminate|]. apply in_app_or in K. destruct K as [K|K]; [|eapply R2; exact K].
+          apply Mk in K. discriminate.
+        * intros [K|K]; [discriminate|]. apply in_app_or in K. destruct K as [K|K]; [|apply C2; exact K].
+          apply Mk in K. discriminate.
+      + split; [intros _; eexists; eexists; split; [reflexivity | right; reflexivity]|].
+        split; [|split].
+        * intros n [K|K]; [discriminate | apply T2; exact K].
+        * intros id k [K|K]; [discriminate | eapply R2; exact K].
+        * intros [K|K]; [discriminate | apply C2; exact K].
+  Qed.
+
+  Lemma incs_nonnil s : incs s <> [].
+  Proof. unfold incs. cbn [seq map]. discriminate. Qed.
 
   Lemma exec_nomark a s : nomark (snd (exec M a s)).
   Proof.
@@ -1973,61 +2301,412 @@ Section Monitor.
     unfold ct in T; cbn [snd app] in T. subst o. exact Mk.
   Qed.
 
-  Lemma head_ok_step s o : head_ok o (snd (step M s o)) = true.
+  Lemma step_cur s o : 0 <= cur s -> cur (fst (step M s o)) = cur s + crashes_of o.
   Proof.
-    destruct o as [a|id k| |id|h|h|dt|v|v|u]; cbn [step snd head_ok]; try reflexivity.
-    - unfold handle_resp. destruct (aget id (pending s)); cbn [snd]; rewrite Z.eqb_refl, kind_eqb_refl; reflexivity.
-    - destruct (tick_shape M s h) as [(_ & o & -> & _)|(_ & ->)]; reflexivity.
-    - destruct (tick_shape M s h) as [(_ & o & -> & _)|(_ & ->)]; reflexivity.
+    intro HC. destruct o as [a|id k| |id|h|h|dt|v|v|u|]; cbn [step tick_real fst crashes_of]; rewrite ?Z.add_0_r; try reflexivity.
+    - apply (istar_keeps M _ _ (exec_is_chain M a None s [])).
+    - unfold handle_resp. destruct (aget (rkey M (cur s) id) (pending s)); [|reflexivity]. cbn [fst].
+      apply (fire_keeps M s _ _).
+    - apply tick_op_cur.
+    - rewrite !tick_op_cur. reflexivity.
+    - destruct (0 <=? dt); reflexivity.
+    - destruct ((0 <=? v) && (v <=? M) && isnil (pending s)); reflexivity.
+    - unfold crash. cbn [fst]. destruct (focus_frame (set_cur s (cur s + 1)) (cur s + 1)) as (_ & _ & _ & C & _).
+      rewrite C. reflexivity.
   Qed.
 
-  Lemma step_scan s o tr now :
-    tick_of (last_marker (tr ++ snd (step M s o))) = Some now ->
-    forall id e, aget id (pending (fst (step M s o))) = Some e -> now <= e_dl e.
+  Lemma n_crash_app a b : n_crash (a ++ b) = n_crash a + n_crash b.
+  Proof. induction a as [|e r IH]; [reflexivity|]. destruct e; cbn [app n_crash]; lia. Qed.
+
+  Lemma n_crash_zero l : ~ In ECrash l -> n_crash l = 0.
   Proof.
-    destruct o as [a|id k| |id|h|h|dt|v|v|u]; cbn [step snd fst].
-    - rewrite last_marker_block; [discriminate | reflexivity | apply exec_nomark].
-    - unfold handle_resp. destruct (aget id (pending s)) eqn:G; cbn [snd].
-      + rewrite last_marker_block; [discriminate | reflexivity | apply fire_facts].
-      + rewrite last_marker_block; [discriminate | reflexivity | intros x [<-|[]]; reflexivity].
-    - rewrite last_marker_snoc. discriminate.
-    - rewrite last_marker_snoc. discriminate.
-    - destruct (tick_shape M s h) as [(A & o & E & Mk)|(A & E)]; rewrite E; cbn [snd].
-      + rewrite (last_marker_block tr (ETick (clock s)) o eq_refl Mk). intro K. inv K.
-        apply tick_post. exact A.
-      + rewrite last_marker_snoc. discriminate.
-    - rewrite app_assoc.
-      destruct (tick_shape M (fst (tick M s h)) []) as [(A & o & E & Mk)|(A & E)]; rewrite E; cbn [snd].
-      + rewrite (last_marker_block _ (ETick (clock (fst (tick M s h)))) o eq_refl Mk). intro K. inv K.
-        apply tick_post. exact A.
-      + rewrite last_marker_snoc. discriminate.
-    - rewrite last_marker_snoc. discriminate.
-    - rewrite last_marker_snoc. discriminate.
-    - rewrite last_marker_snoc. discriminate.
-    - rewrite last_marker_snoc. discriminate.
+    induction l as [|e r IH]; intro N; [reflexivity|].
+    assert (Nr : ~ In ECrash r) by (intro I; apply N; right; exact I).
+    destruct e; cbn [n_crash]; try (apply IH; exact Nr). exfalso. apply N. left. reflexivity.
+  Qed.
+
+  Lemma nomark_no_crash x : nomark x -> ~ In ECrash x.
+  Proof. intros Mk I. apply Mk in I. discriminate. Qed.
+
+  (* a block = a marker followed by non-markers: a marker found in it is its head *)
+  Lemma marked_block m x pre e post :
+    m :: x = pre ++ e :: post -> is_marker e = true -> nomark x -> pre = [] /\ e = m.
+  Proof.
+    intros E Hm Mk. destruct pre as [|p pre]; cbn [app] in E.
+    - inv E. auto.
+    - inv E. exfalso. assert (I : In e (pre ++ e :: post)) by (apply in_or_app; right; left; reflexivity).
+      apply Mk in I. congruence.
+  Qed.
+
+  (* what one operation contributes: restarts, and responses (only a Resp, at the head, addressed
+     to the live incarnation) *)
+  Lemma step_events s o :
+    n_crash (snd (step M s o)) = crashes_of o /\
+    forall pre id k post, snd (step M s o) = pre ++ EResp id k :: post ->
+      pre = [] /\ exists w, o = Resp w k /\ id = rkey M (cur s) w.
+  Proof.
+    assert (NoR : forall l, (forall id k, ~ In (EResp id k) l) ->
+                 forall pre id k post, l = pre ++ EResp id k :: post -> False).
+    { intros l N pre id k post E. apply (N id k). rewrite E. apply in_or_app. right. left. reflexivity. }
+    assert (Blk : forall m x, nomark x -> (forall id k, m <> EResp id k) ->
+                  forall pre id k post, m :: x = pre ++ EResp id k :: post -> False).
+    { intros m x Mk Nm pre id k post E. destruct (marked_block m x pre _ post E eq_refl Mk) as [_ K].
+      apply (Nm id k). symmetry. exact K. }
+    destruct o as [a|id0 k0| |id0|h|h|dt|v|v|u|]; cbn [step tick_real snd crashes_of].
+    - split; [cbn [n_crash]; apply n_crash_zero, nomark_no_crash, exec_nomark|].
+      intros pre id k post E. exfalso. eapply (Blk EDo); [apply exec_nomark | intros; discriminate | exact E].
+    - assert (Sh : exists x, snd (handle_resp M s (rkey M (cur s) id0) k0) = EResp (rkey M (cur s) id0) k0 :: x /\ nomark x).
+      { unfold handle_resp. destruct (aget (rkey M (cur s) id0) (pending s)); cbn [snd]; eexists; (split; [reflexivity|]).
+        - apply fire_facts.
+        - intros y [<-|[]]. reflexivity. }
+      destruct Sh as (x & -> & Mk). split; [cbn [n_crash]; apply n_crash_zero, nomark_no_crash; exact Mk|].
+      intros pre id k post E. destruct (marked_block _ x pre _ post E eq_refl Mk) as [-> K]. inv K.
+      split; [reflexivity|]. exists id0. auto.
+    - split; [reflexivity|]. intros pre id k post E. exfalso. eapply (Blk EIdle []); [intros y [] | intros; discriminate | exact E].
+    - split; [reflexivity|]. intros pre id k post E. exfalso. eapply (Blk EIdle []); [intros y [] | intros; discriminate | exact E].
+    - unfold tick_op. cbn [snd]. destruct (tick_all_shape (incs s) s h) as (_ & _ & R & C).
+      split; [apply n_crash_zero; exact C|]. intros pre id k post E. exfalso. eapply NoR; eassumption.
+    - unfold tick_op. cbn [snd fst]. destruct (tick_all_shape (incs s) s h) as (_ & _ & R & C).
+      set (s1 := focus (fst (tick_all M s (incs s) h)) (cur s)).
+      destruct (tick_all_shape (incs s1) s1 []) as (_ & _ & R1 & C1).
+      split; [rewrite n_crash_app, !n_crash_zero by assumption; reflexivity|].
+      intros pre id k post E. exfalso. eapply (NoR _ _ pre id k post E). Unshelve.
+      intros id' k' I. apply in_app_or in I. destruct I as [I|I]; [eapply R | eapply R1]; exact I.
+    - split; [reflexivity|]. intros pre id k post E. exfalso. eapply (Blk EIdle []); [intros y [] | intros; discriminate | exact E].
+    - split; [reflexivity|]. intros pre id k post E. exfalso. eapply (Blk EIdle []); [intros y [] | intros; discriminate | exact E].
+    - split; [reflexivity|]. intros pre id k post E. exfalso. eapply (Blk EIdle []); [intros y [] | intros; discriminate | exact E].
+    - split; [reflexivity|]. intros pre id k post E. exfalso. eapply (Blk EIdle []); [intros y [] | intros; discriminate | exact E].
+    - split; [reflexivity|]. intros pre id k post E. exfalso. eapply (Blk ECrash []); [intros y [] | intros; discriminate | exact E].
+  Qed.
+End Shape.
+
+(* ------------------------------------------------------------------ request ids are fresh without restarts / wrap / set-up *)
+
+Fixpoint ids_of (tr : list ev) : list Z :=
+  match tr with
+  | [] => []
+  | EIssue _ id _ :: r => id :: ids_of r
+  | _ :: r => ids_of r
+  end.
+
+Lemma ids_of_app a b : ids_of (a ++ b) = ids_of a ++ ids_of b.
+Proof. induction a as [|e r IH]; [reflexivity|]. destruct e; cbn [app ids_of]; rewrite ?IH; reflexivity. Qed.
+
+Lemma ids_of_in t id n tr : In (EIssue t id n) tr -> In id (ids_of tr).
+Proof.
+  induction tr as [|e r IH]; intro I; [inversion I|]. destruct I as [->|I]; [left; reflexivity|].
+  destruct e; cbn [ids_of]; auto. right. auto.
+Qed.
+
+Lemma ids_nodup_same tr : NoDup (ids_of tr) -> forall t1 n1 t2 n2 id,
+  In (EIssue t1 id n1) tr -> In (EIssue t2 id n2) tr -> t1 = t2.
+Proof.
+  induction tr as [|e r IH]; intros ND t1 n1 t2 n2 id I1 I2; [inversion I1|].
+  destruct e; cbn [ids_of] in ND;
+    try (destruct I1 as [E1|I1]; [discriminate|]; destruct I2 as [E2|I2]; [discriminate|]; eapply IH; eassumption).
+  inv ND. destruct I1 as [E1|I1]; destruct I2 as [E2|I2].
+  - inv E1. inv E2. reflexivity.
+  - inv E1. exfalso. apply H1. eapply ids_of_in. exact I2.
+  - inv E2. exfalso. apply H1. eapply ids_of_in. exact I1.
+  - eapply IH; eassumption.
+Qed.
+
+Definition upto (n : Z) : list Z := map Z.of_nat (seq 1 (Z.to_nat n)).
+
+Lemma upto_succ n : 0 <= n -> upto (n + 1) = upto n ++ [n + 1].
+Proof.
+  intro H. unfold upto. replace (Z.to_nat (n + 1)) with (S (Z.to_nat n)) by lia.
+  rewrite seq_S, map_app. cbn [map]. f_equal. f_equal. lia.
+Qed.
+
+Lemma upto_facts n : NoDup (upto n) /\ forall x, In x (upto n) -> 1 <= x <= n.
+Proof.
+  unfold upto. split.
+  - generalize (seq_NoDup (Z.to_nat n) 1). generalize (seq 1 (Z.to_nat n)). intros l ND.
+    induction ND as [|a l Ni _ IH]; cbn [map]; constructor; [|exact IH].
+    intro I. apply in_map_iff in I. destruct I as (b & E & Ib). apply Nat2Z.inj in E. subst b. contradiction.
+  - intros x I. apply in_map_iff in I. destruct I as (k & <- & I). apply in_seq in I. lia.
+Qed.
+
+Section Fresh.
+  Variable M : Z.
+  Hypothesis M_pos : 1 <= M.
+
+  (* one incarnation, allocator never moved by hand: the ids issued so far are 1, 2, ..., next *)
+  Definition G (s : st) (tr : list ev) : Prop :=
+    foc s = 0 /\ cur s = 0 /\
+    (n_issue tr <= M -> next s = n_issue tr /\ ids_of tr = upto (n_issue tr)).
+
+  Lemma n_issue_nonneg tr : 0 <= n_issue tr.
+  Proof. induction tr as [|e r IH]; [cbn; lia|]. destruct e; cbn [n_issue]; lia. Qed.
+
+  Lemma G_same s s' tr o :
+    foc s' = foc s -> cur s' = cur s -> next s' = next s -> n_issue o = 0 -> ids_of o = [] ->
+    G s tr -> G s' (tr ++ o).
+  Proof.
+    intros F C N Ni Io (Gf & Gc & Gi). unfold G. rewrite F, C, N, n_issue_app, ids_of_app, Ni, Io, Z.add_0_r, app_nil_r.
+    auto.
+  Qed.
+
+  Lemma G_istar c c' : istar M c c' -> G (cs c) (ct c) -> G (cs c') (ct c').
+  Proof.
+    induction 1 as [c|c1 c2 c3 H1 _ IH2]; [auto|]. intro G1. apply IH2. clear IH2.
+    destruct H1 as [f s tr u p|f s tr|f s tr]; unfold cs, ct in *; cbn [fst snd] in *.
+    - destruct G1 as (Gf & Gc & Gi). unfold register; cbn [fst snd]. rewrite Gf.
+      set (k := key M 0 (alloc_id M (next s))).
+      assert (Ni : n_issue (match aget k (pending s) with Some v => [EClash k (nalloc s - e_ser v)] | None => [] end ++
+                            EIssue (ntags s) k (clock s) :: (if u then [] else [ESent k (ntags s)])) = 1)
+        by (destruct (aget k (pending s)); destruct u; reflexivity).
+      assert (Io : ids_of (match aget k (pending s) with Some v => [EClash k (nalloc s - e_ser v)] | None => [] end ++
+                           EIssue (ntags s) k (clock s) :: (if u then [] else [ESent k (ntags s)])) = [k])
+        by (destruct (aget k (pending s)); destruct u; reflexivity).
+      unfold G; cbn [foc cur next]. split; [reflexivity|]. split; [exact Gc|].
+      rewrite n_issue_app, ids_of_app, Ni, Io. intro L. pose proof (n_issue_nonneg tr).
+      destruct Gi as [Gn Gs]; [lia|].
+      assert (Ek : k = n_issue tr + 1).
+      { unfold k, key, alloc_id. rewrite Gn. destruct (Z.leb_spec M (n_issue tr)); lia. }
+      split.
+      + unfold alloc_id. rewrite Gn. destruct (Z.leb_spec M (n_issue tr)); lia.
+      + rewrite Gs, Ek. symmetry. apply upto_succ. lia.
+    - apply (G_same s); auto.
+    - apply (G_same s); auto.
+  Qed.
+
+  Lemma G_fire s tr id c : G s tr -> G (fst (fire M s id c)) (tr ++ snd (fire M s id c)).
+  Proof.
+    intro Gs. unfold fire. destruct (aget id (pending s)) as [e|]; cbn [fst snd]; [|rewrite app_nil_r; exact Gs].
+    assert (G1 : G s (tr ++ [ECb (e_tag e) c])) by (apply (G_same s); auto).
+    pose proof (G_istar _ _ (exec_prog_istar M (e_prog e) None s (tr ++ [ECb (e_tag e) c])) G1) as G2.
+    unfold cs, ct in G2; cbn [fst snd] in G2. rewrite <- app_assoc in G2. cbn [app] in G2.
+    destruct G2 as (A & B & C). unfold G. cbn [set_pending foc cur next]. auto.
+  Qed.
+
+  Lemma G_fire_all ids : forall s tr, G s tr -> G (fst (fire_all M s ids)) (tr ++ snd (fire_all M s ids)).
+  Proof.
+    induction ids as [|i r IH]; intros s tr Gs; cbn [fire_all fst snd]; [rewrite app_nil_r; exact Gs|].
+    rewrite app_assoc. apply IH. apply G_fire. exact Gs.
+  Qed.
+
+  Lemma G_tick s tr h : G s tr -> G (fst (tick M s h)) (tr ++ snd (tick M s h)).
+  Proof.
+    intro Gs. unfold tick. destruct (armed s); cbn [fst snd]; [|apply (G_same s); auto].
+    unfold check_expired. destruct (isnil (block M (foc s) (pending s))); cbn [fst snd].
+    - apply (G_same s); auto.
+    - assert (G1 : G s (tr ++ [ETick (clock s)])) by (apply (G_same s); auto).
+      pose proof (G_fire_all (order M h s) s _ G1) as G2. rewrite <- app_assoc in G2. exact G2.
+  Qed.
+
+  Lemma focus_self s : next (focus s (foc s)) = next s /\ foc (focus s (foc s)) = foc s /\ cur (focus s (foc s)) = cur s.
+  Proof.
+    destruct (focus_frame s (foc s)) as (_ & _ & _ & C & F). split; [|auto].
+    pose proof (view_focus s (foc s) (foc s)) as V. rewrite view_foc in V.
+    pose proof (view_foc (focus s (foc s))) as V2. rewrite F in V2. rewrite V2 in V. inv V. reflexivity.
+  Qed.
+
+  Lemma tick_op_single s h :
+    cur s = 0 ->
+    tick_op M s h = (focus (fst (tick M (focus s 0) (hd [] h))) 0, snd (tick M (focus s 0) (hd [] h))).
+  Proof.
+    intro C. unfold tick_op, incs. rewrite C. cbn [Z.to_nat seq map tick_all fst snd]. rewrite app_nil_r. reflexivity.
+  Qed.
+
+  Lemma G_focus0 s tr : G s tr -> G (focus s 0) tr.
+  Proof.
+    intros (A & B & C). destruct (focus_self s) as (N1 & F1 & C1). rewrite A in N1, F1, C1.
+    unfold G. rewrite N1, F1, C1. auto.
+  Qed.
+
+  Lemma G_tick_op s tr h : G s tr -> G (fst (tick_op M s h)) (tr ++ snd (tick_op M s h)).
+  Proof.
+    intro Gs. rewrite (tick_op_single s h (proj1 (proj2 Gs))). cbn [fst snd].
+    apply G_focus0. apply G_tick. apply G_focus0. exact Gs.
+  Qed.
+
+  Definition plain (o : op) : Prop := o <> Crash /\ forall v, o <> SetNext v.
+
+  Lemma G_step s tr o : plain o -> G s tr -> G (fst (step M s o)) (tr ++ snd (step M s o)).
+  Proof.
+    intros [NCr NSn] Gs. destruct o as [a|id k| |id|h|h|dt|v|v|u|]; cbn [step tick_real fst snd].
+    - assert (G1 : G s (tr ++ [EDo])) by (apply (G_same s); auto).
+      pose proof (G_istar _ _ (exec_is_chain M a None s (tr ++ [EDo])) G1) as G2.
+      unfold cs, ct in G2; cbn [fst snd] in G2. rewrite <- app_assoc in G2. exact G2.
+    - unfold handle_resp. destruct (aget (rkey M (cur s) id) (pending s)) eqn:E; cbn [fst snd].
+      + assert (G1 : G s (tr ++ [EResp (rkey M (cur s) id) k])) by (apply (G_same s); auto).
+        pose proof (G_fire s _ (rkey M (cur s) id) (cls_of k) G1) as G2. rewrite <- app_assoc in G2. exact G2.
+      + apply (G_same s); auto.
+    - apply (G_same s); auto.
+    - apply (G_same s); auto.
+    - apply G_tick_op. exact Gs.
+    - rewrite app_assoc. apply G_tick_op. apply G_tick_op. exact Gs.
+    - destruct (0 <=? dt); apply (G_same s); auto.
+    - destruct (NSn v eq_refl).
+    - apply (G_same s); auto.
+    - apply (G_same s); auto.
+    - destruct (NCr eq_refl).
+  Qed.
+
+  (* no restart, no allocator set-up, at most M requests: no request id is used twice *)
+  Theorem fresh_plain ops :
+    Forall plain ops -> n_issue (trace_g M ops) <= M -> fresh_ids M (trace_g M ops).
+  Proof.
+    intros Pl L.
+    assert (Gr : G (final_g M ops) (trace_g M ops)).
+    { clear L. induction ops as [|o h IH] using rev_ind.
+      - unfold G, final_g, trace_g. cbn. split; [reflexivity|]. split; [reflexivity|]. intros _. split; reflexivity.
+      - apply Forall_app in Pl. destruct Pl as [Ph Po]. inv Po.
+        rewrite final_snoc, trace_snoc. apply G_step; [assumption | apply IH; exact Ph]. }
+    destruct Gr as (_ & _ & Gi). destruct (Gi L) as [_ Ids].
+    destruct (upto_facts (n_issue (trace_g M ops))) as [ND Rg]. rewrite <- Ids in ND, Rg.
+    intros t1 k1 n1 t2 k2 n2 I1 I2 W.
+    pose proof (Rg k1 (ids_of_in _ _ _ _ I1)) as R1. pose proof (Rg k2 (ids_of_in _ _ _ _ I2)) as R2.
+    unfold wid, Span in W. rewrite !Z.mod_small in W by lia. subst k2.
+    eapply ids_nodup_same; eassumption.
+  Qed.
+End Fresh.
+
+(* ------------------------------------------------------------------ responses go to the live incarnation *)
+
+Lemma app_split {A} (a b pre post : list A) x :
+  a ++ b = pre ++ x :: post ->
+  (exists post', a = pre ++ x :: post' /\ post = post' ++ b) \/
+  (exists pre', pre = a ++ pre' /\ b = pre' ++ x :: post).
+Proof.
+  revert pre. induction a as [|y a IH]; intros pre E; cbn [app] in E.
+  - right. exists pre. auto.
+  - destruct pre as [|p pre]; cbn [app] in E.
+    + inv E. left. exists a. auto.
+    + inv E. destruct (IH pre H1) as [(post' & -> & ->)|(pre' & -> & ->)].
+      * left. exists post'. auto.
+      * right. exists pre'. auto.
+Qed.
+
+Lemma model_resp_live M ops :
+  1 <= M -> resp_live M (trace_g M ops) /\ n_crash (trace_g M ops) = cur (final_g M ops).
+Proof.
+  intro P. induction ops as [|o h IH] using rev_ind.
+  - split; [|reflexivity]. intros pre id k post E. destruct pre; discriminate.
+  - destruct IH as [L C]. rewrite trace_snoc, final_snoc.
+    destruct (step_events M (final_g M h) o) as [Nc Rs].
+    pose proof (base_run M P h) as (_ & _ & _ & Fo). unfold cs in Fo; cbn [fst snd] in Fo.
+    split.
+    + intros pre id k post E. apply app_split in E. destruct E as [(post' & E1 & _)|(pre' & -> & E2)].
+      * apply (L pre id k post' E1).
+      * destruct (Rs pre' id k post E2) as (-> & w & _ & ->). exists w. rewrite app_nil_r, C. reflexivity.
+    + rewrite n_crash_app, C, Nc. symmetry. apply step_cur. lia.
+Qed.
+
+Section Monitor.
+  Let M := MaxReqId.
+  Let M_pos : 1 <= M := maxreqid_pos.
+
+  Lemma head_ok_step s o : head_ok (cur s) o (snd (step M s o)) = true.
+  Proof.
+    destruct o as [a|id k| |id|h|h|dt|v|v|u|]; cbn [step tick_real snd head_ok]; try reflexivity.
+    - unfold handle_resp. destruct (aget (rkey M (cur s) id) (pending s)); cbn [snd];
+        fold M; rewrite Z.eqb_refl, kind_eqb_refl; reflexivity.
+    - unfold tick_op. cbn [snd].
+      destruct (proj1 (tick_all_shape M (incs s) s h) (incs_nonnil s)) as (m & x & -> & [-> | ->]); reflexivity.
+    - unfold tick_op. cbn [snd].
+      destruct (proj1 (tick_all_shape M (incs s) s h) (incs_nonnil s)) as (m & x & -> & [-> | ->]); reflexivity.
+  Qed.
+
+  (* events of one operation: which markers they contain *)
+  Lemma step_markers s o :
+    (forall n, In (ETick n) (snd (step M s o)) -> n = clock s /\ exists h, o = Tick h \/ o = TickReal h) /\
+    exists m x, snd (step M s o) = m :: x /\ is_marker m = true.
+  Proof.
+    destruct o as [a|id k| |id|h|h|dt|v|v|u|]; cbn [step tick_real snd].
+    - split; [|eexists; eexists; split; reflexivity].
+      intros n [K|K]; [discriminate|]. apply (exec_nomark M) in K. discriminate.
+    - unfold handle_resp. destruct (aget (rkey M (cur s) id) (pending s)) eqn:G; cbn [snd];
+        (split; [|eexists; eexists; split; reflexivity]).
+      + intros n [K|K]; [discriminate|]. apply fire_facts in K. discriminate.
+      + intros n [K|[K|[]]]; discriminate.
+    - split; [intros n [K|[]]; discriminate | eexists; eexists; split; reflexivity].
+    - split; [intros n [K|[]]; discriminate | eexists; eexists; split; reflexivity].
+    - unfold tick_op. cbn [snd]. destruct (tick_all_shape M (incs s) s h) as (Hd & T & _).
+      split; [intros n K; split; [apply T; exact K | exists h; left; reflexivity]|].
+      destruct (Hd (incs_nonnil s)) as (m & x & E & Hm). exists m, x. split; [exact E|]. destruct Hm as [-> | ->]; reflexivity.
+    - unfold tick_op. cbn [snd fst].
+      set (s1 := focus (fst (tick_all M s (incs s) h)) (cur s)).
+      destruct (tick_all_shape M (incs s) s h) as (Hd & T & _).
+      destruct (tick_all_shape M (incs s1) s1 []) as (_ & T1 & _).
+      assert (C1 : clock s1 = clock s).
+      { unfold s1. destruct (focus_frame (fst (tick_all M s (incs s) h)) (cur s)) as (_ & Cf & _). rewrite Cf.
+        clear. generalize (incs s). intro js. revert s h. induction js as [|j r IH]; intros s h; cbn [tick_all fst]; [reflexivity|].
+        rewrite IH, tick_clock. apply (focus_frame s j). }
+      split.
+      + intros n K. split; [|exists h; right; reflexivity]. apply in_app_or in K.
+        destruct K as [K|K]; [apply T; exact K | rewrite <- C1; apply T1; exact K].
+      + destruct (Hd (incs_nonnil s)) as (m & x & E & Hm). rewrite E. cbn [app].
+        eexists; eexists; split; [reflexivity|]. destruct Hm as [-> | ->]; reflexivity.
+    - split; [intros n [K|[]]; discriminate | eexists; eexists; split; reflexivity].
+    - split; [intros n [K|[]]; discriminate | eexists; eexists; split; reflexivity].
+    - split; [intros n [K|[]]; discriminate | eexists; eexists; split; reflexivity].
+    - split; [intros n [K|[]]; discriminate | eexists; eexists; split; reflexivity].
+    - split; [intros n [K|[]]; discriminate | eexists; eexists; split; reflexivity].
+  Qed.
+
+  (* if the last scan of an operation was a real one (at clock now), nothing expired is left in
+     ANY incarnation's table *)
+  Lemma step_scan h o now :
+    tick_of (last_marker (trace_g M h ++ snd (step M (final_g M h) o))) = Some now ->
+    forall id e, aget id (pending (fst (step M (final_g M h) o))) = Some e -> now <= e_dl e.
+  Proof.
+    intro Tk. set (s := final_g M h) in *.
+    destruct (step_markers s o) as (T & m & x & E & Hm).
+    destruct (last_marker (trace_g M h ++ snd (step M s o))) as [e0|] eqn:L; [|discriminate].
+    destruct e0; try discriminate. cbn [tick_of] in Tk. inv Tk.
+    rewrite E in L. apply (last_marker_in _ _ _ _ Hm) in L. rewrite <- E in L.
+    destruct (T _ L) as (-> & hint & [-> | ->]); cbn [step tick_real fst].
+    - intros id e G. destruct (tick_op_post M M_pos s hint (base_run M M_pos h)) as (_ & _ & K). apply (K id e G).
+    - intros id e G. destruct (tick_op_post M M_pos s hint (base_run M M_pos h)) as (B1 & C1 & _).
+      destruct (tick_op_post M M_pos _ [] B1) as (_ & _ & K). rewrite <- C1. apply (K id e G).
+  Qed.
+
+  Lemma nth_arms s j : 0 <= j <= cur s -> nth (Z.to_nat j) (arms_of s) false = armed_of s j.
+  Proof.
+    intro H. unfold arms_of, incs. rewrite map_map.
+    rewrite (nth_indep _ false (armed_of s (Z.of_nat 0))) by (rewrite map_length, seq_length; lia).
+    rewrite (map_nth (fun x => armed_of s (Z.of_nat x)) (seq 0 (S (Z.to_nat (cur s)))) 0%nat).
+    rewrite seq_nth by lia. cbn [plus]. f_equal. lia.
   Qed.
 
   Lemma monitor_run r : forall h a,
-    noclash (trace_g M (h ++ r)) -> acc_from a0 (trace_g M h) = Some a ->
-    mon_from a r (run_obs M (final_g M h) r) = true.
+    noclash (trace_g M (h ++ r)) -> answers_own (trace_g M (h ++ r)) ->
+    acc_from a0 (trace_g M h) = Some a ->
+    mon_from (cur (final_g M h)) a r (run_obs M (final_g M h) r) = true.
   Proof.
-    induction r as [|o r IH]; intros h a NC Acc; [reflexivity|].
+    induction r as [|o r IH]; intros h a NC Own Acc; [reflexivity|].
     cbn [run_obs mon_from observe].
     assert (E : h ++ o :: r = (h ++ [o]) ++ r) by (rewrite <- app_assoc; reflexivity).
-    rewrite E in NC. assert (NC1 : noclash (trace_g M (h ++ [o]))).
+    rewrite E in NC, Own. assert (NC1 : noclash (trace_g M (h ++ [o]))).
     { rewrite trace_app in NC. apply noclash_app in NC. tauto. }
+    assert (B5 : own_b (snd (step M (final_g M h) o)) = true).
+    { apply own_b_complete. rewrite trace_app, trace_snoc, <- app_assoc in Own.
+      eapply answers_own_mid. exact Own. }
     destruct (model_accepted M M_pos _ NC1) as (a' & Acc' & Idle & Tk & Op & Keys).
     pose proof (acc_from_inv _ a0 [] a' AInv_init Acc') as AI. cbn [app] in AI.
     rewrite head_ok_step. cbn [andb].
     assert (S : acc_from a (snd (step M (final_g M h) o)) = Some a').
     { rewrite trace_snoc, acc_from_app, Acc in Acc'. exact Acc'. }
-    rewrite S. rewrite <- final_snoc.
+    rewrite S.
+    pose proof (base_run M M_pos h) as (_ & _ & _ & Fo). unfold cs in Fo; cbn [fst snd] in Fo.
+    assert (Cu : cur (final_g M (h ++ [o])) = cur (final_g M h) + crashes_of o)
+      by (rewrite final_snoc; apply (step_cur M); lia).
+    rewrite <- final_snoc.
+    pose proof (base_run M M_pos (h ++ [o])) as (_ & _ & A1 & Fo1). unfold cs in A1, Fo1; cbn [fst snd] in A1, Fo1.
     assert (B1 : settled a' = true) by (unfold settled; rewrite Idle; reflexivity).
     assert (B2 : zlist_eqb (akeys (a_open a')) (akeys (pending (final_g M (h ++ [o])))) = true)
       by (apply zlist_eqb_spec; exact Keys).
-    assert (B3 : isnil (akeys (pending (final_g M (h ++ [o])))) || armed (final_g M (h ++ [o])) = true).
-    { destruct (pending (final_g M (h ++ [o]))) eqn:P; [reflexivity|].
-      rewrite (timer_armed M M_pos (h ++ [o])); [apply orb_true_r | rewrite P; discriminate]. }
+    assert (B3 : forallb (armed_key (arms_of (final_g M (h ++ [o])))) (akeys (pending (final_g M (h ++ [o])))) = true).
+    { apply forallb_forall. intros k I. unfold akeys in I. apply in_map_iff in I. destruct I as ([k' e] & <- & I).
+      cbn [fst]. apply (in_aget _ _ _ (proj1 (base_run M M_pos (h ++ [o])))) in I.
+      destruct (A1 (inc_of M k')) as [Ar Rg]; [exists k', e; auto|].
+      unfold armed_key. fold M. rewrite nth_arms by exact Rg. rewrite Ar.
+      destruct (Z.leb_spec 0 (inc_of M k')); [reflexivity | lia]. }
+    assert (B3' : (Z.of_nat (length (arms_of (final_g M (h ++ [o])))) =? cur (final_g M h) + crashes_of o + 1) = true).
+    { unfold arms_of, incs. rewrite !map_length, seq_length, <- Cu. apply Z.eqb_eq. lia. }
     assert (B4 : scan_post a' = true).
     { unfold scan_post. destruct (a_tick a') as [now|] eqn:T; [|reflexivity].
       apply forallb_forall. intros [id [t n]] I. cbn [snd].
@@ -2035,14 +2714,15 @@ Section Monitor.
       destruct (aget id (pending (final_g M (h ++ [o])))) as [e|] eqn:G; [|discriminate].
       cbn [option_map] in I. unfold ent in I. inv I.
       rewrite trace_snoc in Tk. symmetry in Tk. rewrite final_snoc in G.
-      pose proof (step_scan _ _ _ _ Tk id e G). lia. }
-    rewrite B1, B2, B3, B4, Z.eqb_refl, peer_eqb_refl. cbn [andb].
-    apply IH; [exact NC | exact Acc'].
+      pose proof (step_scan _ _ _ Tk id e G). lia. }
+    rewrite B1, B2, B3, B3', B4, B5, Z.eqb_refl. fold M. rewrite peer_eqb_refl. cbn [andb].
+    rewrite <- Cu. apply IH; [exact NC | exact Own | exact Acc'].
   Qed.
 
   Theorem monitor_sound ops :
-    noclash (trace_g M ops) -> mon_from a0 ops (run_obs M init ops) = true.
-  Proof. intro NC. apply (monitor_run ops [] a0); [exact NC | reflexivity]. Qed.
+    noclash (trace_g M ops) -> answers_own (trace_g M ops) ->
+    mon_from 0 a0 ops (run_obs M init ops) = true.
+  Proof. intros NC Own. apply (monitor_run ops [] a0); [exact NC | exact Own | reflexivity]. Qed.
 End Monitor.
 
 (* ------------------------------------------------------------------ statements as used by Props.v *)
@@ -2051,9 +2731,6 @@ Lemma noclash_b_spec tr : noclash_b tr = true -> noclash tr.
 Proof.
   unfold noclash_b. intros H id sp I. rewrite forallb_forall in H. specialize (H _ I). discriminate.
 Qed.
-
-Lemma maxreqid_pos : 1 <= MaxReqId.
-Proof. unfold MaxReqId. lia. Qed.
 
 Lemma model_at_most_once M ops : 1 <= M -> noclash (trace_g M ops) -> at_most_once (trace_g M ops).
 Proof. intros P NC. apply (model_trace_props M P ops NC). Qed.
@@ -2108,6 +2785,24 @@ Proof.
   exact (cls_of_not_other k (eq_sym C)).
 Qed.
 
+(* with truthful ghosts and request ids that are never used twice, a reply completes the request
+   the peer was answering: it follows from [matching] *)
+Lemma own_from_matching M tr :
+  matching tr -> ghosts_truthful M tr -> fresh_ids M tr -> answers_own tr.
+Proof.
+  intros Hm Gt Fr p id k t c post E RC G.
+  assert (E1 : tr = (p ++ [EResp id k]) ++ ECb t c :: post) by (rewrite E, <- app_assoc; reflexivity).
+  pose proof (matching_value_exact tr Hm _ t c post E1 RC) as (a & id' & n & b & k' & Ep & _ & _).
+  assert (Eq : p ++ [EResp id k] = (a ++ EIssue t id' n :: b) ++ [EResp id' k'])
+    by (rewrite Ep, <- app_assoc; reflexivity).
+  destruct (Gt p id k (ECb t c :: post) E G) as (key & n' & I & W).
+  apply app_inj_tail in Eq. destruct Eq as [Ep2 Er]. injection Er as Ei Ek.
+  apply (Fr (ghost_of k) key n' t id' n).
+  - rewrite E. apply in_or_app. left. exact I.
+  - rewrite E, Ep2. apply in_or_app. left. apply in_or_app. right. left. reflexivity.
+  - rewrite <- Ei. exact W.
+Qed.
+
 Lemma accepts_value tr : accepts tr = true -> value_exact tr /\ values_wellformed tr.
 Proof.
   intro A. destruct (accepts_sound tr A) as (_ & _ & Hm & _).
@@ -2126,80 +2821,113 @@ Qed.
    delivered as the non-nil zero message; nil only for the untyped nil; an error code wins over
    whatever body travels with it *)
 Lemma value_boundaries :
-  cls_of (KAns 0 0 (MHello 0 0)) = RReply (VHello 0 0) /\
-  cls_of (KAns 0 0 MTypedNil) = RReply (VHello 0 0) /\
-  cls_of (KAns 0 0 MEmpty) = RReply VEmpty /\
-  cls_of (KAns 0 0 MNil) = RNil /\
-  (forall e, cls_of (KRaw (Wire 0 e TyHello (BFields 0 0))) = RReply (VHello 0 0)) /\
-  (forall e b, cls_of (KRaw (Wire 0 e TyUnknown b)) = RBad false) /\
-  (forall e b, cls_of (KRaw (Wire 0 e TyNone b)) = RNil) /\
-  (forall c e t b, c <> 0 -> cls_of (KRaw (Wire c e t b)) = RErr e) /\
-  (forall c e m, c <> 0 -> cls_of (KAns c e m) = RErr e).
+  cls_of_ans (KAns 0 0 (MHello 0 0)) = RReply (VHello 0 0) /\
+  cls_of_ans (KAns 0 0 MTypedNil) = RReply (VHello 0 0) /\
+  cls_of_ans (KAns 0 0 MEmpty) = RReply VEmpty /\
+  cls_of_ans (KAns 0 0 MNil) = RNil /\
+  (forall e, cls_of_ans (KRaw (Wire 0 e TyHello (BFields 0 0))) = RReply (VHello 0 0)) /\
+  (forall e b, cls_of_ans (KRaw (Wire 0 e TyUnknown b)) = RBad false) /\
+  (forall e b, cls_of_ans (KRaw (Wire 0 e TyNone b)) = RNil) /\
+  (forall c e t b, c <> 0 -> cls_of_ans (KRaw (Wire c e t b)) = RErr e) /\
+  (forall c e m, c <> 0 -> cls_of_ans (KAns c e m) = RErr e).
 Proof.
   repeat split; try reflexivity.
-  - intros c e t b N. unfold cls_of, wire_of, decode. destruct (Z.eqb_spec c 0); [contradiction | reflexivity].
+  - intros c e t b N. unfold cls_of_ans, wire_of_ans, decode. destruct (Z.eqb_spec c 0); [contradiction | reflexivity].
   - intros c e m N. rewrite roundtrip. destruct (Z.eqb_spec c 0); [contradiction | reflexivity].
 Qed.
 
-Lemma monitor_model ops : noclash (trace ops) -> monitor (ops, run ops) = true.
-Proof. intro NC. apply (monitor_sound MaxReqId maxreqid_pos ops NC). Qed.
+Lemma monitor_model ops :
+  noclash (trace ops) -> answers_own (trace ops) -> monitor (ops, run ops) = true.
+Proof. intros NC Own. apply (monitor_sound ops NC Own). Qed.
 
-(* a Tick op run in a state whose timer is armed leaves no expired entry *)
-Lemma scan_complete M s h id e :
-  armed s = true -> aget id (pending (fst (step M s (Tick h)))) = Some e -> clock s <= e_dl e.
-Proof. intros A H. eapply tick_post; eassumption. Qed.
+(* the scan of an incarnation (the one in focus), any state: none of its requests is left expired *)
+Lemma scan_incarnation M s h id e :
+  1 <= M -> armed s = true -> aget id (pending (fst (tick M s h))) = Some e -> inc_of M id = foc s ->
+  clock s <= e_dl e.
+Proof. intros P A H I. eapply tick_post; eassumption. Qed.
+
+(* a Tick operation, every history: nothing expired is left in the table of ANY incarnation *)
+Lemma scan_complete M (P : 1 <= M) h hint id e :
+  aget id (pending (final_g M (h ++ [Tick hint]))) = Some e -> clock (final_g M h) <= e_dl e.
+Proof. apply after_tick. exact P. Qed.
 
 Lemma timer_disarm M s h :
-  armed s = true -> armed (fst (step M s (Tick h))) = false ->
-  pending s = [] /\ step M s (Tick h) = (set_armed s false, [ETick (clock s)]).
+  armed s = true -> armed (fst (tick M s h)) = false ->
+  block M (foc s) (pending s) = [] /\ tick M s h = (set_armed s false, [ETick (clock s)]).
 Proof. apply tick_disarm. Qed.
 
-Lemma istar_armed M c c' : istar M c c' -> armed (cs c) = true -> armed (cs c') = true.
+Lemma istar_armed_of M c c' j :
+  istar M c c' -> armed_of (cs c) j = true -> armed_of (cs c') j = true.
 Proof.
-  induction 1 as [c|c1 c2 c3 H1 _ IH2]; [auto|]. intro A1. apply IH2.
-  destruct H1; unfold cs in *; cbn [fst snd register armed set_ntags] in *; auto.
+  intros H A. destruct (istar_keeps M _ _ H) as (Am & F & R & _).
+  unfold armed_of in *. rewrite (views_upd (cs c) (cs c') F R).
+  destruct (Z.eqb_spec j (foc (cs c))) as [->|N]; [|exact A].
+  rewrite view_foc in A. cbn [fst snd] in *. apply Am. exact A.
 Qed.
 
-(* only a Tick can switch the timer off *)
-Lemma step_keeps_armed M s o :
-  armed s = true -> (forall h, o <> Tick h) -> (forall h, o <> TickReal h) ->
-  armed (fst (step M s o)) = true.
+(* only a scan can switch a timer off - the live incarnation's or a replaced one's *)
+Lemma step_keeps_armed M s o j :
+  armed_of s j = true -> (forall h, o <> Tick h) -> (forall h, o <> TickReal h) ->
+  armed_of (fst (step M s o)) j = true.
 Proof.
-  intros A N1 N2. destruct o as [a|id k| |id|h|h|dt|v|v|u]; cbn [step fst].
-  - apply (istar_armed M _ _ (exec_is_chain M a None s [])). exact A.
-  - unfold handle_resp. destruct (aget id (pending s)) as [e|] eqn:G; cbn [fst]; [|exact A].
-    unfold fire. rewrite G. cbn [fst set_pending armed].
-    apply (istar_armed M _ _ (exec_prog_istar M (e_prog e) None s [])). exact A.
+  intros A N1 N2. destruct o as [a|id k| |id|h|h|dt|v|v|u|]; cbn [step tick_real fst].
+  - apply (istar_armed_of M _ _ j (exec_is_chain M a None s [])). exact A.
+  - unfold handle_resp. destruct (aget (rkey M (cur s) id) (pending s)) as [e|] eqn:G; cbn [fst]; [|exact A].
+    unfold fire. rewrite G. cbn [fst].
+    pose proof (istar_armed_of M _ _ j (exec_prog_istar M (e_prog e) None s []) A) as K.
+    unfold cs in K; cbn [fst snd] in K. exact K.
   - exact A.
   - exact A.
   - destruct (N1 h eq_refl).
   - destruct (N2 h eq_refl).
   - destruct (0 <=? dt); exact A.
-  - destruct ((0 <=? v) && (v <=? M) && isnil (pending s)); exact A.
+  - destruct ((0 <=? v) && (v <=? M) && isnil (pending s)); [|exact A].
+    unfold armed_of in *. rewrite (views_upd s (set_next s v) eq_refl eq_refl).
+    destruct (Z.eqb_spec j (foc s)) as [->|N]; [|exact A]. rewrite view_foc in A. exact A.
   - exact A.
   - exact A.
+  - unfold crash. cbn [fst]. unfold armed_of in *. rewrite view_focus. exact A.
+Qed.
+
+(* a restart, state level: nothing of what exists is touched - table, timers and allocators of
+   all incarnations stay as they are; the new live incarnation is a fresh Service *)
+Lemma crash_step M s :
+  foc s = cur s ->
+  let s' := fst (step M s Crash) in
+  snd (step M s Crash) = [ECrash] /\ pending s' = pending s /\ clock s' = clock s /\
+  cur s' = cur s + 1 /\ foc s' = cur s + 1 /\
+  (forall j, j <> cur s + 1 -> view s' j = view s j) /\
+  (aget (cur s + 1) (rest s) = None -> next s' = 0 /\ armed s' = false).
+Proof.
+  intros F s'. unfold s'. cbn [step tick_real crash fst snd].
+  destruct (focus_frame (set_cur s (cur s + 1)) (cur s + 1)) as (P & C & _ & Cu & Fo).
+  split; [reflexivity|]. split; [exact P|]. split; [exact C|]. split; [exact Cu|]. split; [exact Fo|]. split.
+  - intros j _. exact (view_focus (set_cur s (cur s + 1)) (cur s + 1) j).
+  - intro G. unfold focus, park. cbn [set_cur foc rest next armed nalloc].
+    rewrite aget_aset_other by lia. rewrite G. cbn. auto.
 Qed.
 
 (* ------------------------------------------------------------------ a response for a pending id, state level *)
 
 Lemma resp_step M s id k e :
-  aget id (pending s) = Some e ->
+  let key := rkey M (cur s) id in
+  aget key (pending s) = Some e ->
   let r := exec_prog M (e_prog e) s in
   step M s (Resp id k) =
-    (set_pending (fst r) (adel id (pending (fst r))),
-     EResp id k :: ECb (e_tag e) (cls_of k) :: snd r) /\
-  aget id (pending (fst (step M s (Resp id k)))) = None /\
-  (noclash (snd r) -> forall id' e', id' <> id -> aget id' (pending s) = Some e' ->
+    (set_pending (fst r) (adel key (pending (fst r))),
+     EResp key k :: ECb (e_tag e) (cls_of k) :: snd r) /\
+  aget key (pending (fst (step M s (Resp id k)))) = None /\
+  (noclash (snd r) -> forall id' e', id' <> key -> aget id' (pending s) = Some e' ->
                       aget id' (pending (fst (step M s (Resp id k)))) = Some e') /\
   (e_prog e = [] ->
    step M s (Resp id k) =
-     (set_pending s (adel id (pending s)), [EResp id k; ECb (e_tag e) (cls_of k)])).
+     (set_pending s (adel key (pending s)), [EResp key k; ECb (e_tag e) (cls_of k)])).
 Proof.
-  intros G r.
+  intros key G r.
   assert (E : step M s (Resp id k) =
-              (set_pending (fst r) (adel id (pending (fst r))),
-               EResp id k :: ECb (e_tag e) (cls_of k) :: snd r)).
-  { cbn [step]. unfold handle_resp. rewrite G. unfold fire. rewrite G. reflexivity. }
+              (set_pending (fst r) (adel key (pending (fst r))),
+               EResp key k :: ECb (e_tag e) (cls_of k) :: snd r)).
+  { cbn [step tick_real]. unfold handle_resp. fold key. rewrite G. unfold fire. rewrite G. reflexivity. }
   split; [exact E|]. rewrite E. cbn [fst set_pending pending]. split; [apply aget_adel_same|]. split.
   - intros NC id' e' Ne H. rewrite aget_adel_other by exact Ne.
     destruct (istar_facts M _ _ (exec_prog_istar M (e_prog e) None s [])) as (_ & _ & _ & o & T & _ & K).
@@ -2223,7 +2951,8 @@ Proof.
   - exists []. rewrite app_nil_r. auto.
   - assert (exists o1, ct c2 = ct c1 ++ o1 /\ timeout_tags o1 = []) as (o1 & T1 & N1).
     { destruct H1 as [f s tr u p|f s tr|f s tr]; unfold ct; cbn [snd]; eexists; (split; [reflexivity|]).
-      - unfold register; cbn [snd]. destruct (aget (alloc_id M (next s)) (pending s)); destruct u; reflexivity.
+      - unfold register; cbn [snd].
+        destruct (aget (key M (foc s) (alloc_id M (next s))) (pending s)); destruct u; reflexivity.
       - reflexivity.
       - reflexivity. }
     exists (o1 ++ o2). split; [rewrite T2, T1, app_assoc; reflexivity|].
@@ -2287,7 +3016,28 @@ Proof.
   destruct o as [e p a g s l]. simpl.
   rewrite (list_eqb_refl ev_eqb ev_eqb_refl), Z.eqb_refl, peer_eqb_refl.
   assert (Zl : zlist_eqb p p = true) by (apply zlist_eqb_spec; reflexivity).
-  rewrite Zl. destruct a; reflexivity.
+  rewrite Zl. rewrite (list_eqb_refl Bool.eqb Bool.eqb_reflx). reflexivity.
+Qed.
+
+(* the timeout tags of one scan's events, found again in a longer event list *)
+Definition starts_marked (l : list ev) : Prop :=
+  l = [] \/ exists m r, l = m :: r /\ is_marker m = true.
+
+Lemma head_tags_block x rest :
+  nomark x -> starts_marked rest -> head_tags (x ++ rest) = timeout_tags x.
+Proof.
+  intros Mk St. induction x as [|e x IH]; cbn [app].
+  - destruct St as [->|(m & r & -> & Hm)]; [reflexivity|]. cbn [head_tags]. rewrite Hm. reflexivity.
+  - cbn [head_tags]. rewrite (Mk e (or_introl eq_refl)).
+    assert (Mx : nomark x) by (intros y I; apply Mk; right; exact I).
+    destruct e; cbn [timeout_tags]; try (apply IH; exact Mx).
+    destruct c; try (apply IH; exact Mx). f_equal. apply IH. exact Mx.
+Qed.
+
+Lemma block_tags_nomark x rest : nomark x -> block_tags (x ++ rest) = block_tags rest.
+Proof.
+  intro Mk. induction x as [|e x IH]; [reflexivity|]. cbn [app block_tags].
+  rewrite (Mk e (or_introl eq_refl)). apply IH. intros y I. apply Mk. right. exact I.
 Qed.
 
 Section Rehint.
@@ -2333,7 +3083,7 @@ Section Rehint.
     sorted (pending s) -> tags_distinct s ->
     order M (map (tag_at s) (order M h s)) s = order M h s.
   Proof.
-    intros S D. destruct (order_spec h s) as [ND Sub].
+    intros S D. destruct (order_spec M h s) as [ND Sub].
     assert (NE : NoDup (expired_ids M s)).
     { unfold expired_ids. apply NoDup_filter. apply sorted_nodup_keys. exact S. }
     unfold order at 1. rewrite flat_map_concat_map, map_map, <- flat_map_concat_map.
@@ -2341,8 +3091,8 @@ Section Rehint.
     - apply dedup_app_self; [exact ND | intros x _ [] |].
       intros x I. left. unfold order. apply dedup_complete; [|intros []]. apply in_or_app. right. exact I.
     - intros id I. apply filter_singleton; [exact NE | apply Sub; exact I|].
-      intros x Ix. destruct (expired_in s x Ix) as (ex & Gx & _).
-      destruct (expired_in s id (Sub id I)) as (ei & Gi & _).
+      intros x Ix. destruct (expired_in M s x Ix) as (ex & Gx & _).
+      destruct (expired_in M s id (Sub id I)) as (ei & Gi & _).
       unfold tag_is, tag_at. rewrite Gx, Gi. split.
       + intro E. apply (D x id ex ei Gx Gi). lia.
       + intros ->. rewrite Gx in Gi. inv Gi. apply Z.eqb_refl.
@@ -2353,61 +3103,124 @@ Section Rehint.
     tick M s (timeout_tags (snd (tick M s h))) = tick M s h.
   Proof.
     intros S D NC. unfold tick in *. destruct (armed s); [|reflexivity]. cbn [snd fst] in *.
-    unfold check_expired in *. destruct (isnil (pending s)); [reflexivity|].
+    unfold check_expired in *. destruct (isnil (block M (foc s) (pending s))); [reflexivity|].
     cbn [timeout_tags].
     change (ETick (clock s) :: snd (fire_all M s (order M h s)))
       with ([ETick (clock s)] ++ snd (fire_all M s (order M h s))) in NC.
     apply noclash_app in NC. destruct NC as [_ NC].
-    destruct (order_spec h s) as [ND Sub].
+    destruct (order_spec M h s) as [ND Sub].
     rewrite fire_all_tags; [|exact ND| |exact NC].
     - rewrite order_rehint by assumption. reflexivity.
-    - intros id I. destruct (expired_in s id (Sub id I)) as (e & G & _). congruence.
+    - intros id I. destruct (expired_in M s id (Sub id I)) as (e & G & _). congruence.
   Qed.
 
-  Lemma second_tick_quiet s h :
-    timeout_tags (snd (tick M (fst (tick M s h)) [])) = [].
+  (* states reached inside a clash-free run: sorted table, pairwise distinct tags *)
+  Definition Good (s : st) : Prop := exists tr, Sim M (None, s, tr) /\ noclash tr.
+
+  Lemma good_facts s : Good s -> sorted (pending s) /\ tags_distinct s.
   Proof.
-    destruct (tick_shape M s h) as [(A & _)|(A & E)].
-    - set (s1 := fst (tick M s h)).
-      assert (Ex : expired_ids M s1 = []).
-      { unfold expired_ids. assert (F : forall id, expired_b M s1 id = false).
-        { intro id. unfold expired_b. destruct (aget id (pending s1)) as [e|] eqn:G; [|reflexivity].
-          pose proof (tick_post M s h A id e G). unfold s1. rewrite tick_clock. lia. }
-        induction (akeys (pending s1)) as [|x l IH]; [reflexivity|]. simpl. rewrite F. exact IH. }
-      unfold tick. destruct (armed s1); [|reflexivity]. cbn [snd]. unfold check_expired.
-      destruct (isnil (pending s1)); [reflexivity|]. unfold order. rewrite Ex. reflexivity.
-    - rewrite E. cbn [fst]. unfold tick. rewrite A. reflexivity.
+    intros (tr & [(S & _) R] & NC). unfold cs in S; cbn [fst snd] in S. split; [exact S|].
+    destruct (R NC) as [a Ra]. destruct Ra as [Racc _ _ _ Ropen _]. unfold cs, ct, cf in *; cbn [fst snd inflight] in *.
+    pose proof (acc_from_inv _ a0 [] a AInv_init Racc) as AI. cbn [app] in AI.
+    intros id1 id2 e1 e2 G1 G2 E.
+    assert (O1 : aget id1 (a_open a) = Some (ent e1)) by (rewrite Ropen, G1; reflexivity).
+    assert (O2 : aget id2 (a_open a) = Some (ent e2)) by (rewrite Ropen, G2; reflexivity).
+    unfold ent in *. rewrite E in O1. eapply (ai_tags _ _ AI); eassumption.
+  Qed.
+
+  Lemma good_star s s' o :
+    Good s -> (forall tr, star M (None, s, tr) (None, s', tr ++ o)) -> noclash o -> Good s'.
+  Proof.
+    intros (tr & Sm & NC) St NCo. exists (tr ++ o). split; [|apply noclash_app; auto].
+    refine (star_inv M (Sim M) _ _ _ (St tr) Sm). intros c c' P. apply sim_prim; assumption.
+  Qed.
+
+  Lemma good_cur s : Good s -> 0 <= cur s.
+  Proof. intros (tr & [(_ & _ & _ & Fo) _] & _). unfold cs in Fo; cbn [fst snd] in Fo. lia. Qed.
+
+  (* a round of scans, re-run with the hints read off its own events (possibly followed by more
+     events [rest] that begin with a marker) *)
+  Lemma tick_all_rehint js : forall s hs rest,
+    Good s -> (forall j, In j js -> 0 <= j <= cur s) ->
+    noclash (snd (tick_all M s js hs)) -> starts_marked rest ->
+    tick_all M s js (block_tags (snd (tick_all M s js hs) ++ rest)) = tick_all M s js hs.
+  Proof.
+    induction js as [|j r IH]; intros s hs rest G Hin NC St; [reflexivity|].
+    cbn [tick_all snd fst] in *. apply noclash_app in NC. destruct NC as [NC1 NC2].
+    set (sj := focus s j) in *. set (h := hd [] hs) in *.
+    assert (Gj : Good sj).
+    { apply (good_star s sj []); [exact G| |apply noclash_nil].
+      intro tr. rewrite app_nil_r. apply star_one. apply PFocus. apply Hin. left. reflexivity. }
+    destruct (good_facts sj Gj) as [Sj Dj].
+    assert (G1 : Good (fst (tick M sj h))).
+    { apply (good_star sj _ (snd (tick M sj h))); [exact Gj | intro tr; apply tick_star | exact NC1]. }
+    set (R := snd (tick_all M (fst (tick M sj h)) r (tl hs)) ++ rest).
+    assert (StR : starts_marked R).
+    { unfold R. destruct r as [|j' r'].
+      - cbn [tick_all snd app]. exact St.
+      - destruct (proj1 (tick_all_shape M (j' :: r') (fst (tick M sj h)) (tl hs))) as (m & x & E & Hm); [discriminate|].
+        right. exists m, (x ++ rest). rewrite E. split; [reflexivity|]. destruct Hm as [-> | ->]; reflexivity. }
+    assert (Hd : block_tags ((snd (tick M sj h) ++ snd (tick_all M (fst (tick M sj h)) r (tl hs))) ++ rest) =
+                 timeout_tags (snd (tick M sj h)) :: block_tags R).
+    { rewrite <- app_assoc. fold R.
+      destruct (tick_shape M sj h) as [(_ & o & E & Mk)|(_ & E)]; rewrite E; cbn [snd app block_tags is_marker timeout_tags].
+      - rewrite (head_tags_block o R Mk StR), (block_tags_nomark o R Mk). reflexivity.
+      - f_equal. destruct StR as [->|(m & r0 & -> & Hm)]; [reflexivity|]. cbn [head_tags]. rewrite Hm. reflexivity. }
+    rewrite Hd. cbn [hd tl]. rewrite (tick_rehint sj h Sj Dj NC1).
+    unfold R. rewrite IH; [reflexivity | exact G1 | | exact NC2 | exact St].
+    intros j' I. rewrite tick_cur. destruct (focus_frame s j) as (_ & _ & _ & C & _). fold sj in C. rewrite C.
+    apply Hin. right. exact I.
   Qed.
 
   Definition rehint (o : op) (evs : list ev) : op :=
     match o with
-    | Tick _ => Tick (timeout_tags evs)
-    | TickReal _ => TickReal (timeout_tags evs)
+    | Tick _ => Tick (block_tags evs)
+    | TickReal _ => TickReal (block_tags evs)
     | _ => o
     end.
 
+  Lemma tick_op_rehint s hs rest :
+    Good s -> noclash (snd (tick_op M s hs)) -> starts_marked rest ->
+    tick_op M s (block_tags (snd (tick_op M s hs) ++ rest)) = tick_op M s hs.
+  Proof.
+    intros G NC St. pose proof (good_cur s G) as HC.
+    assert (E : snd (tick_op M s hs) = snd (tick_all M s (incs s) hs)) by reflexivity.
+    rewrite E in *. unfold tick_op.
+    rewrite (tick_all_rehint (incs s) s hs rest G (fun j I => incs_range s j HC I) NC St). reflexivity.
+  Qed.
+
+  Lemma tick_op_starts s hs : starts_marked (snd (tick_op M s hs)).
+  Proof.
+    unfold tick_op. cbn [snd].
+    destruct (proj1 (tick_all_shape M (incs s) s hs) (incs_nonnil s)) as (m & x & E & Hm).
+    right. exists m, x. split; [exact E|]. destruct Hm as [-> | ->]; reflexivity.
+  Qed.
+
   Lemma step_rehint s o :
-    sorted (pending s) -> tags_distinct s -> noclash (snd (step M s o)) ->
+    Good s -> noclash (snd (step M s o)) ->
     step M s (rehint o (snd (step M s o))) = step M s o /\
     got_of (rehint o (snd (step M s o))) = got_of o.
   Proof.
-    intros S D NC. destruct o as [a|id k| |id|h|h|dt|v|v|u]; cbn [rehint]; try (split; reflexivity).
-    - cbn [step] in *. split; [apply tick_rehint; assumption | reflexivity].
-    - cbn [step snd] in *. split; [|reflexivity].
-      rewrite timeout_tags_app, second_tick_quiet, app_nil_r.
-      apply noclash_app in NC. destruct NC as [NC1 _].
-      rewrite tick_rehint by assumption. reflexivity.
+    intros G NC.
+    destruct o as [a|id k| |id|h|h|dt|v|v|u|]; cbn [rehint]; try (split; reflexivity).
+    - split; [|reflexivity]. change (step M s (Tick h)) with (tick_op M s h) in *.
+      change (step M s (Tick (block_tags (snd (tick_op M s h)))))
+        with (tick_op M s (block_tags (snd (tick_op M s h)))).
+      pose proof (tick_op_rehint s h [] G NC (or_introl eq_refl)) as E.
+      rewrite app_nil_r in E. exact E.
+    - split; [|reflexivity].
+      set (r1 := tick_op M s h) in *.
+      change (step M s (TickReal h)) with (fst (tick_op M (fst r1) []), snd r1 ++ snd (tick_op M (fst r1) [])) in *.
+      cbn [snd] in NC. apply noclash_app in NC. destruct NC as [NC1 _].
+      cbn [snd].
+      change (step M s (TickReal (block_tags (snd r1 ++ snd (tick_op M (fst r1) [])))))
+        with (let q := tick_op M s (block_tags (snd r1 ++ snd (tick_op M (fst r1) []))) in
+              (fst (tick_op M (fst q) []), snd q ++ snd (tick_op M (fst q) []))).
+      unfold r1 at 1. rewrite (tick_op_rehint s h _ G NC1 (tick_op_starts (fst r1) [])). reflexivity.
   Qed.
 
-  Lemma reach_tags_distinct h : noclash (trace_g M h) -> tags_distinct (final_g M h).
-  Proof.
-    intros NC id1 id2 e1 e2 G1 G2 E.
-    destruct (model_accepted M M_pos h NC) as (a & Acc & _ & _ & Op & _).
-    pose proof (acc_from_inv _ a0 [] a AInv_init Acc) as AI. cbn [app] in AI.
-    assert (O1 : aget id1 (a_open a) = Some (ent e1)) by (rewrite Op, G1; reflexivity).
-    assert (O2 : aget id2 (a_open a) = Some (ent e2)) by (rewrite Op, G2; reflexivity).
-    unfold ent in *. rewrite E in O1. eapply (ai_tags _ _ AI); eassumption.
-  Qed.
+  Lemma reach_good h : noclash (trace_g M h) -> Good (final_g M h).
+  Proof. intro NC. exists (trace_g M h). split; [apply sim_run; exact M_pos | exact NC]. Qed.
 
   Lemma with_hints_cons o r b br :
     with_hints (o :: r) (b :: br) =
@@ -2424,8 +3237,7 @@ Section Rehint.
     rewrite E in NC. assert (NC1 : noclash (trace_g M (h ++ [o]))).
     { rewrite trace_app in NC. apply noclash_app in NC. tauto. }
     rewrite trace_snoc in NC1. apply noclash_app in NC1. destruct NC1 as [NC0 NCo].
-    destruct (sim_run M M_pos h) as [(S & _) _]. unfold cs in S; cbn [fst snd] in S.
-    destruct (step_rehint (final_g M h) o S (reach_tags_distinct h NC0) NCo) as [Es Eg].
+    destruct (step_rehint (final_g M h) o (reach_good h NC0) NCo) as [Es Eg].
     rewrite Es. unfold observe. rewrite Eg. f_equal.
     rewrite <- final_snoc. apply IH. exact NC.
   Qed.
@@ -2436,4 +3248,27 @@ Proof.
   intro NC. unfold agree, run. cbn [fst snd].
   pose proof (rehint_run MaxReqId maxreqid_pos ops [] NC) as H. unfold final_g in H. cbn [run_from fst app] in H.
   rewrite H. apply list_eqb_refl. exact obs_eqb_refl.
+Qed.
+
+(* ------------------------------------------------------------------ the reply answers the callback's own request *)
+
+Lemma model_own M ops :
+  1 <= M -> noclash (trace_g M ops) -> ghosts_truthful M (trace_g M ops) -> fresh_ids M (trace_g M ops) ->
+  answers_own (trace_g M ops).
+Proof. intros P NC Gt Fr. apply (own_from_matching M); [apply model_matching; assumption | exact Gt | exact Fr]. Qed.
+
+Lemma model_own_plain M ops :
+  1 <= M -> Forall plain ops -> n_issue (trace_g M ops) <= M ->
+  noclash (trace_g M ops) -> ghosts_truthful M (trace_g M ops) ->
+  answers_own (trace_g M ops).
+Proof. intros P Pl L NC Gt. apply model_own; try assumption. apply fresh_plain; assumption. Qed.
+
+Lemma accepts_own M tr :
+  accepts tr = true -> ghosts_truthful M tr -> fresh_ids M tr -> answers_own tr.
+Proof. intros A Gt Fr. destruct (accepts_sound tr A) as (_ & _ & Hm & _). eapply own_from_matching; eassumption. Qed.
+
+Lemma restart_refutes_own :
+  ~ answers_own (trace [Do (AReq []); Crash; Do (AReq []); Resp 1 (K 0 (KAns 0 0 (MHello 7 0)))]).
+Proof.
+  intro A. apply own_b_complete in A. vm_compute in A. discriminate.
 Qed.
